@@ -1,239 +1,135 @@
 /-
-  C02 — parsing recovers the structure a well-formed document was written with.
+  C03SRound — the exact round trip on the core fragment (step 1 of the string-level statement of C03): the strict
+  parse of the source of a `Doc.Core` document is, up to positions and parsing states, exactly `exactOf ctx d` — the
+  characters of every chars node (whitespace-only ones included), post-spaces, comments, delimiters, argument lists
+  with their absent slots, and the source slices of math and environment nodes.
 
-  `C02_full` is the full statement over the document grammar of `Pylx/Doc.lean` (every construct, every context), with
-  the repaired separation discipline `Doc.WF` (a control word without written argument and with an empty `post` is not
-  followed by whitespace other than a paragraph break; the earlier counterexample `\a x` is excluded, see `cexDoc`).
-  It is kept as a proposition.  `C02_core` proves the round trip for the fragment `Doc.Core` (a decidable predicate on
-  context and derivation): text of letters / digits / `.,;:`, whitespace items, paragraph breaks (as the `\n\n` specials
-  when the context declares them, as plain text otherwise; also directly behind a control word or a comment line), brace
-  groups, comments, calls of control-word and control-symbol macros and environments (normal and math bodies, unknown
-  names through the context's fallbacks) whose signature (looked up in the context) is made of `m` / `o` / `s` / `t<c>` /
-  `r<c1c2>` / `d<c1c2>` slots written as brace groups or single text characters / bracket groups / stars / markers /
-  delimited groups or left out (any argument mode deltas), inline and display math with the four delimiter pairs,
-  specials without arguments, `\verb`; arbitrary nesting; every context in which no specials string starts with a text
-  character, `*`, `[` or `]` — for every derivation of the fragment (unbounded depth and length) and every amount of fuel
-  that is large enough (`C02_core_run`), in particular the fuel `parseTop` uses (`C02_core`, `C02_core_ok`).
-  Not covered: verbatim environments, `v` arguments, specials with arguments, absent optional arguments directly in front
-  of a paragraph break / `\begin` / `\end`.
-
-  Architecture: `Ev` (result for all large fuel) + `run_mono`; `items_reach` / `args_reach` = prefix lemma over every
-  collector state, by mutual recursion on the derivation, one lemma per construct (`step_*`, `*_runs`).
+  The proof is the induction of `PylxProofs/C02.lean` (`items_reachX` / `args_reachX`: prefix lemmas over every collector
+  state) restated with the exact relation (`XNode`, `erase`) instead of the shape projection, plus the invariant that
+  the collector never produces two adjacent chars nodes (`Canon`).
 -/
-import PylxProofs.C02Args
-import PylxProofs.C01
-namespace Pylx
-namespace C02
-open Doc
-
-theorem pendSh_ne {w : Str} (h : w.isEmpty = false) : pendSh w = [.chars w] := by
-  unfold pendSh; rw [h]; rfl
+import PylxProofs.C03SX
+namespace Pylx.L2T.C03S
+open Pylx Pylx.Doc Pylx.C02
 
 section constructs
-variable {env : Env} {keys : List Str}
+variable {env : Pylx.Env} {keys : List Str}
 
-/-- `Reaches` with whitespace in hand: the collector stands in front of the whitespace `w` (not yet read) followed by
+/-- `ReachesX` with whitespace in hand: the collector stands in front of the whitespace `w` (not yet read) followed by
     text that spells the shapes `trA`; it gets to a state in front of some whitespace `w'` followed by `tail`, and what
     it has produced plus `w'` is what `w` plus `trA` stand for -/
-def ReachesW (env : Env) (L : PSFields) (stop : StopTok) (child : ChildPS) (st : LoopSt) (w : Str) (trA : List Shape)
+def ReachesWX (env : Pylx.Env) (L : PSFields) (stop : StopTok) (child : ChildPS) (st : LoopSt) (w : Str) (trA : List XNode)
     (tail : Str) : Prop :=
-  ∃ tr n w', Reaches env L stop child st tr n ∧ env.s.drop (st.pos + n) = w' ++ tail ∧ isWs w' = true ∧ countNl w' < 2 ∧
-    mergeChars (tr ++ pendSh w') = mergeChars (pendSh w ++ trA)
+  ∃ tr n w', ReachesX env L stop child st tr n ∧ env.s.drop (st.pos + n) = w' ++ tail ∧ isWs w' = true ∧ countNl w' < 2 ∧
+    mergeX (tr ++ pendX w') = mergeX (pendX w ++ trA)
 
-theorem ReachesW.step {L : PSFields} {stop : StopTok} {child : ChildPS} {st : LoopSt} {tr1 : List Shape} {n1 : Nat}
-    {w : Str} {x trB : List Shape} {tail : Str} (h1 : Reaches env L stop child st tr1 n1)
-    (hm : mergeChars tr1 = mergeChars (pendSh w ++ x))
-    (h2 : ∀ st1 : LoopSt, st1.pos = st.pos + n1 → ReachesW env L stop child st1 [] trB tail) :
-    ReachesW env L stop child st w (x ++ trB) tail := by
-  obtain ⟨st1, hp1, hs1, hk1⟩ := h1
-  obtain ⟨tr2, n2, w', ⟨st2, hp2, hs2, hk2⟩, hd2, hw2, hn2, hm2⟩ := h2 st1 hp1
-  refine ⟨tr1 ++ tr2, n1 + n2, w', ⟨st2, by omega, ?_, fun R h => hk1 R (hk2 R h)⟩, ?_, hw2, hn2, ?_⟩
+theorem ReachesWX.step {L : PSFields} {stop : StopTok} {child : ChildPS} {st : LoopSt} {tr1 : List XNode} {n1 : Nat}
+    {w : Str} {x trB : List XNode} {tail : Str} (h1 : ReachesX env L stop child st tr1 n1)
+    (hm : mergeX tr1 = mergeX (pendX w ++ x))
+    (h2 : ∀ st1 : LoopSt, st1.pos = st.pos + n1 → ReachesWX env L stop child st1 [] trB tail) :
+    ReachesWX env L stop child st w (x ++ trB) tail := by
+  obtain ⟨st1, hp1, hs1, hc1, hk1⟩ := h1
+  obtain ⟨tr2, n2, w', ⟨st2, hp2, hs2, hc2, hk2⟩, hd2, hw2, hn2, hm2⟩ := h2 st1 hp1
+  refine ⟨tr1 ++ tr2, n1 + n2, w', ⟨st2, by omega, ?_, fun h => hc2 (hc1 h), fun R h => hk1 R (hk2 R h)⟩, ?_, hw2, hn2, ?_⟩
   · rw [hs2, ← List.append_assoc]
-    exact mergeChars_append_left hs1 tr2
+    exact mergeX_append_left hs1 tr2
   · rw [← hd2, hp1, Nat.add_assoc]
-  · have e1 : mergeChars (tr2 ++ pendSh w') = mergeChars trB := by rw [hm2]; rfl
-    rw [List.append_assoc, mergeChars_append_right tr1 e1, mergeChars_append_left hm trB, List.append_assoc]
+  · have e1 : mergeX (tr2 ++ pendX w') = mergeX trB := by rw [hm2]; rfl
+    rw [List.append_assoc, mergeX_append_right tr1 e1, mergeX_append_left hm trB, List.append_assoc]
 
-theorem ReachesW.nil {L : PSFields} {stop : StopTok} {child : ChildPS} {st : LoopSt} {w tail : Str}
+theorem ReachesWX.nil {L : PSFields} {stop : StopTok} {child : ChildPS} {st : LoopSt} {w tail : Str}
     (hd : env.s.drop st.pos = w ++ tail) (hw : isWs w = true) (hn : countNl w < 2) :
-    ReachesW env L stop child st w [] tail :=
-  ⟨[], 0, w, Reaches.refl env L stop child st, hd, hw, hn, by rw [List.nil_append, List.append_nil]⟩
-
+    ReachesWX env L stop child st w [] tail :=
+  ⟨[], 0, w, ReachesX.refl env L stop child st, hd, hw, hn, by rw [List.nil_append, List.append_nil]⟩
 section text
 variable {m : Bool} {br : Xp} {md : Option Str} {stop : StopTok} {child : ChildPS}
 
 /-- one text character behind whitespace -/
-theorem reach_char (htol : env.tol = false) (hn : NormOk m md) (hx : XpOk br) (hk : keysCore keys = true) {st : LoopSt} {w : Str} {c : Char}
+theorem reach_charX (htol : env.tol = false) (hn : NormOk m md) (hx : XpOk br) (hk : keysCore keys = true) {st : LoopSt} {w : Str} {c : Char}
     {rest : Str} (hd : env.s.drop st.pos = w ++ c :: rest) (hw : isWs w = true) (hnl : countNl w < 2) (hc : isTextChar c = true) :
-    Reaches env (stdF keys m md true br) stop child st (pendSh w ++ pendSh [c]) (w.length + 1) := by
+    ReachesX env (stdF keys m md true br) stop child st (pendX w ++ pendX [c]) (w.length + 1) := by
   have hps := psStd_std keys m md true br hn
   have hpk : peekImpl (mkPS (stdF keys m md true br)) env.s st.pos = _ :=
-    (peekImpl_ws hd hw hnl (textChar_ne hc).2.2.2.2.2).trans (peekAtChar_text hps hx hk (drop_add_of_drop hd) hc)
-  have := reach_charTok (stop := stop) (child := child) htol hpk rfl (by show st.pos ≤ st.pos + w.length + 1; omega)
+    (peekImpl_ws hd hw hnl (textChar_ne hc).2.2.2.2.2).trans (C02.peekAtChar_text hps hx hk (drop_add_of_drop hd) hc)
+  have := reachX_charTok (stop := stop) (child := child) htol hpk rfl (by show st.pos ≤ st.pos + w.length + 1; omega)
   have e : st.pos + w.length + 1 - st.pos = w.length + 1 := by omega
   simp only [e] at this
   exact this
 
 /-- a run of text characters becomes pending characters -/
-theorem reach_letters (htol : env.tol = false) (hn : NormOk m md) (hx : XpOk br) (hk : keysCore keys = true) :
+theorem reach_lettersX (htol : env.tol = false) (hn : NormOk m md) (hx : XpOk br) (hk : keysCore keys = true) :
     ∀ (t : Str) (st : LoopSt) (rest : Str), t.all isTextChar = true → env.s.drop st.pos = t ++ rest →
-      Reaches env (stdF keys m md true br) stop child st (pendSh t) t.length
-  | [], st, _, _, _ => Reaches.refl env _ stop child st
+      ReachesX env (stdF keys m md true br) stop child st (pendX t) t.length
+  | [], st, _, _, _ => ReachesX.refl env _ stop child st
   | c :: t, st, rest, hall, hd => by
     simp only [List.all_cons, Bool.and_eq_true] at hall
-    have h1 := reach_char (br := br) (stop := stop) (child := child) (w := []) htol hn hx hk (st := st) (by simpa using hd) rfl (by decide) hall.1
-    have h2 := Reaches.trans h1 (fun st1 hp => reach_letters htol hn hx hk t st1 rest hall.2 (by
+    have h1 := reach_charX (br := br) (stop := stop) (child := child) (w := []) htol hn hx hk (st := st) (by simpa using hd) rfl (by decide) hall.1
+    have h2 := ReachesX.trans h1 (fun st1 hp => reach_lettersX htol hn hx hk t st1 rest hall.2 (by
       rw [hp]; exact drop_succ_of_drop (by simpa using hd)))
     have e : ([] : Str).length + 1 + t.length = (c :: t).length := by simp; omega
     rw [e] at h2
-    refine Reaches.congr ?_ h2
+    refine ReachesX.congr ?_ h2
     cases t with
     | nil => rfl
     | cons d t => rfl
 
 /-- a text item behind whitespace -/
-theorem reach_text (htol : env.tol = false) (hn : NormOk m md) (hx : XpOk br) (hk : keysCore keys = true) {st : LoopSt} {w t rest : Str}
+theorem reach_textX (htol : env.tol = false) (hn : NormOk m md) (hx : XpOk br) (hk : keysCore keys = true) {st : LoopSt} {w t rest : Str}
     (hd : env.s.drop st.pos = w ++ (t ++ rest)) (hw : isWs w = true) (hnl : countNl w < 2) (hne : t ≠ [])
     (hall : t.all isTextChar = true) :
-    Reaches env (stdF keys m md true br) stop child st (pendSh w ++ [.chars t]) (w.length + t.length) := by
+    ReachesX env (stdF keys m md true br) stop child st (pendX w ++ [.chars t]) (w.length + t.length) := by
   cases t with
   | nil => exact absurd rfl hne
   | cons c t =>
     simp only [List.all_cons, Bool.and_eq_true] at hall
-    have h1 := reach_char (br := br) (stop := stop) (child := child) htol hn hx hk (st := st) (by simpa using hd) hw hnl hall.1
-    have h2 := Reaches.trans h1 (fun st1 hp => reach_letters (br := br) htol hn hx hk t st1 rest hall.2 (by
+    have h1 := reach_charX (br := br) (stop := stop) (child := child) htol hn hx hk (st := st) (by simpa using hd) hw hnl hall.1
+    have h2 := ReachesX.trans h1 (fun st1 hp => reach_lettersX (br := br) htol hn hx hk t st1 rest hall.2 (by
       rw [hp, ← Nat.add_assoc]
       exact drop_succ_of_drop (drop_add_of_drop (by simpa using hd))))
     have e : w.length + 1 + t.length = w.length + (c :: t).length := by simp; omega
     rw [e] at h2
-    refine Reaches.congr ?_ h2
+    refine ReachesX.congr ?_ h2
     rw [List.append_assoc]
-    apply mergeChars_append_right
+    apply mergeX_append_right
     cases t with
     | nil => rfl
     | cons d t => rfl
 
 end text
-
-theorem child_same (f : PSFields) (t : Token) : ChildPS.same.get f t = f := rfl
-
-theorem child_group (o : Str) (f : PSFields) (t : Token) : (ChildPS.group o f f).get f t = f := by
-  unfold ChildPS.get
-  simp
-
-theorem child_br (o : Char) (g K : PSFields) (t : Token) (ho : o ≠ '{') (h : t.kind = .braceOpen → t.arg = ['{']) :
-    (ChildPS.group [o] g K).get g t = K := by
-  show (if (t.kind == TokKind.braceOpen && t.arg == [o]) = true then g else K) = K
-  have : (t.kind == TokKind.braceOpen && t.arg == [o]) = false := by
-    cases hk : (t.kind == TokKind.braceOpen) with
-    | false => rfl
-    | true =>
-      have hk' : t.kind = .braceOpen := by
-        revert hk; cases t.kind <;> intro hk <;> first | rfl | cases hk
-      rw [h hk']
-      simp [Ne.symm ho]
-  rw [this]
-  rfl
-
-theorem stop_brace_math (c : Str) (t : Token) (h : t.kind = .mathInline ∨ t.kind = .mathDisplay) :
-    (StopTok.braceClose c).test t = false := by
-  rcases h with h | h <;> (simp only [StopTok.test, h]; rfl)
-
-theorem followOk_of_head {c : Char} {r : Str} (hc : isPySpace c = false) (hc2 : c ≠ '\\') : absentFollowOk (c :: r) = true := by
-  unfold absentFollowOk
-  simp only [List.takeWhile_cons, List.dropWhile_cons, hc, Bool.false_eq_true, if_false]
-  have : escSafe (c :: r) = true := by
-    unfold escSafe
-    split
-    · rename_i h; cases h; exact absurd rfl hc2
-    · rfl
-  rw [this]
-  rfl
-
-theorem applyDelta_std (m : Bool) (md : Option Str) (d : Delta) :
-    ∃ md', applyDelta (stdF keys m md true) d = stdF keys (deltaMath m d) md' true ∧ (NormOk m md → NormOk (deltaMath m d) md') := by
-  cases d with
-  | none => exact ⟨md, rfl, fun h => h⟩
-  | enterMath => exact ⟨none, rfl, fun _ _ => rfl⟩
-  | leaveMath => exact ⟨none, rfl, fun _ _ => rfl⟩
-
-/-- the first character of a non-empty body in math mode is not `$` -/
-theorem core_head_not_dollar (ctx : Ctx) (after : Str) : ∀ (b : List Item), coreItems ctx true after b = true →
-    ∀ rest, isWs (unparseItems b) = false → headIs (· == '$') (unparseItems b ++ rest) = false
-  | [], _, _, h => by simp [unparseItems, isWs] at h
-  | .T t :: tl, hc, rest, _ => by
-    simp only [coreItems, Bool.and_eq_true, Bool.not_eq_eq_eq_not, Bool.not_true] at hc
-    cases t with
-    | nil => simp at hc
-    | cons c t =>
-      have := hc.1.2
-      simp only [List.all_cons, Bool.and_eq_true] at this
-      have := (textChar_ne this.1).1
-      simp [unparseItems, headIs, this]
-  | .W w :: tl, hc, rest, _ => by
-    simp only [coreItems, Bool.and_eq_true, Bool.not_eq_eq_eq_not, Bool.not_true] at hc
-    cases w with
-    | nil => simp at hc
-    | cons c w =>
-      have h1 := hc.1.1.1.2
-      simp only [isWs, List.all_cons, Bool.and_eq_true] at h1
-      have h2 := h1.1
-      have : c ≠ '$' := by intro e; subst e; revert h2; decide
-      simp [unparseItems, headIs, this]
-  | .G b :: tl, _, rest, _ => by simp [unparseItems, headIs]
-  | .C text tail :: tl, _, rest, _ => by simp [unparseItems, headIs]
-  | .M name post args :: tl, _, rest, _ => by simp [unparseItems, headIs]
-  | .F k b :: tl, hc, rest, _ => by simp [coreItems] at hc
-  | .P _ :: _, hc, _, _ => by simp [coreItems] at hc
-  | .E _ _ _ :: _, _, rest, _ => by
-    simp only [unparseItems, List.append_assoc, beginStr_append, headIs]
-    rfl
-  | .S name args :: tl, hc, rest, _ => by
-    simp only [coreItems, Bool.and_eq_true] at hc
-    cases name with
-    | nil => simp [headIs] at hc
-    | cons c name' =>
-      have := (specialsHead_ne (c := c) (by simpa [headIs] using hc.1.1.1.2)).2.2.2.2.2.1
-      simp [unparseItems, headIs, this]
-  | .V _ _ :: _, _, rest, _ => by
-    simp only [unparseItems]
-    rfl
-  | .VE _ _ _ _ :: _, hc, _, _ => by simp [coreItems] at hc
-
 /-! ### one lemma per construct (the recursive parts are hypotheses) -/
 
 section steps
 variable {m : Bool} {md : Option Str}
 
 /-- `{ body }` parsed by the group parser -/
-theorem group_node (htol : env.tol = false) (hn : NormOk m md) {q : Nat} {X Y : Str} {trb : List Shape}
+theorem group_nodeX (htol : env.tol = false) (hn : NormOk m md) {q : Nat} {X Y : Str} {trb : List XNode}
     (hd : env.s.drop q = '{' :: X)
-    (hbody : ReachesW env (stdF keys m md true) (.braceClose ['}']) (.group ['{'] (stdF keys m md true) (stdF keys m md true))
+    (hbody : ReachesWX env (stdF keys m md true) (.braceClose ['}']) (.group ['{'] (stdF keys m md true) (stdF keys m md true))
       { pos := q + 1 } [] trb ('}' :: Y)) :
     ∃ p nd, q ≤ p ∧ env.s.drop p = Y ∧
       Ev env (.pc (.group (.auto ['{']) false false) (stdF keys m md true) q) (.ok (.node nd) p) ∧
-      shapeOf nd = .group ['{'] ['}'] (some (normList trb)) := by
+      erase env.s nd = .group ['{'] ['}'] (some (mergeX trb)) := by
   obtain ⟨tr, n, w', hreach, hdrop, hw', hn', hm⟩ := hbody
   have hdrop' : env.s.drop (q + 1 + n) = w' ++ '}' :: Y := hdrop
   have hps := psStd_std keys m md true none hn
   have hpkc : peekImpl (mkPS (stdF keys m md true)) env.s (q + 1 + n) = _ :=
     (peekImpl_ws hdrop' hw' hn' (by decide)).trans (peekAtChar_close hps (drop_add_of_drop hdrop'))
-  obtain ⟨a, b, ns, hgen, hsh⟩ := body_runs htol hreach hpkc rfl rfl
+  obtain ⟨a, b, ns, hgen, hsh⟩ := bodyX_runs htol hreach hpkc rfl rfl
   have hgrp := group_runs htol hn hd hgen
   refine ⟨_, _, ?_, drop_succ_of_drop (drop_add_of_drop hdrop'), hgrp, ?_⟩
   · show q ≤ q + 1 + n + w'.length + 1; omega
-  · simp only [shapeOf, shapeOfBody]
-    rw [normList_congr (hsh.trans hm)]
-    rfl
+  · simp only [erase, eraseBody]
+    rw [hsh]
+    exact congrArg _ (congrArg _ hm)
 
 /-- `o body c` parsed by the group parser of a bracket / delimited argument -/
-theorem xgroup_node (htol : env.tol = false) (hn : NormOk m md) {o c : Char} (hx : XpOk (some (o, c))) (opt ap : Bool) {q : Nat}
-    {X Y : Str} {trb : List Shape} (hd : env.s.drop q = o :: X)
-    (hbody : ReachesW env (stdF keys m md true (some (o, c))) (.braceClose [c])
+theorem xgroup_nodeX (htol : env.tol = false) (hn : NormOk m md) {o c : Char} (hx : XpOk (some (o, c))) (opt ap : Bool) {q : Nat}
+    {X Y : Str} {trb : List XNode} (hd : env.s.drop q = o :: X)
+    (hbody : ReachesWX env (stdF keys m md true (some (o, c))) (.braceClose [c])
       (.group [o] (stdF keys m md true (some (o, c))) (stdF keys m md true)) { pos := q + 1 } [] trb (c :: Y)) :
     ∃ p nd, q ≤ p ∧ env.s.drop p = Y ∧
       Ev env (.pc (.group (.pair [o] [c]) opt ap) (stdF keys m md true) q) (.ok (.node nd) p) ∧
-      shapeOf nd = .group [o] [c] (some (normList trb)) := by
+      erase env.s nd = .group [o] [c] (some (mergeX trb)) := by
   obtain ⟨tr, n, w', hreach, hdrop, hw', hn', hm⟩ := hbody
   have hdrop' : env.s.drop (q + 1 + n) = w' ++ c :: Y := hdrop
   have hps := psStd_std keys m md true (some (o, c)) hn
@@ -243,43 +139,41 @@ theorem xgroup_node (htol : env.tol = false) (hn : NormOk m md) {o c : Char} (hx
     intro a b
     simp [StopTok.test]
     rfl
-  obtain ⟨a, b, ns, hgen, hsh⟩ := body_runs htol hreach hpkc (hst _ _) rfl
+  obtain ⟨a, b, ns, hgen, hsh⟩ := bodyX_runs htol hreach hpkc (hst _ _) rfl
   have hgrp := xgroup_runs htol hn hx opt ap hd hgen
   refine ⟨_, _, ?_, drop_succ_of_drop (drop_add_of_drop hdrop'), hgrp, ?_⟩
   · show q ≤ q + 1 + n + w'.length + 1; omega
-  · simp only [shapeOf, shapeOfBody]
-    rw [normList_congr (hsh.trans hm)]
-    rfl
+  · simp only [erase, eraseBody]
+    rw [hsh]
+    exact congrArg _ (congrArg _ hm)
 
 variable {br : Xp} {stop : StopTok} {child : ChildPS}
 
 /-- a brace group in the collector -/
-theorem step_group (htol : env.tol = false) (hn : NormOk m md)
+theorem step_groupX (htol : env.tol = false) (hn : NormOk m md)
     (hch : ∀ t : Token, (t.kind = .braceOpen → t.arg = ['{']) → child.get (stdF keys m md true br) t = stdF keys m md true)
-    {st : LoopSt} {w X Y : Str} {trb : List Shape} (hd : env.s.drop st.pos = w ++ ('{' :: X)) (hw : isWs w = true)
+    {st : LoopSt} {w X Y : Str} {trb : List XNode} (hd : env.s.drop st.pos = w ++ ('{' :: X)) (hw : isWs w = true)
     (hnl : countNl w < 2)
-    (hbody : ReachesW env (stdF keys m md true) (.braceClose ['}']) (.group ['{'] (stdF keys m md true) (stdF keys m md true))
+    (hbody : ReachesWX env (stdF keys m md true) (.braceClose ['}']) (.group ['{'] (stdF keys m md true) (stdF keys m md true))
       { pos := st.pos + w.length + 1 } [] trb ('}' :: Y)) :
     ∃ p, st.pos ≤ p ∧ env.s.drop p = Y ∧
-      Reaches env (stdF keys m md true br) stop child st (pendSh w ++ [.group ['{'] ['}'] (some (normList trb))]) (p - st.pos) := by
+      ReachesX env (stdF keys m md true br) stop child st (pendX w ++ [.group ['{'] ['}'] (some (mergeX trb))]) (p - st.pos) := by
   have hdq : env.s.drop (st.pos + w.length) = '{' :: X := drop_add_of_drop hd
-  obtain ⟨p, nd, hqp, hdp, hgrp, hshape⟩ := group_node htol hn hdq hbody
+  obtain ⟨p, nd, hqp, hdp, hgrp, hshape⟩ := group_nodeX htol hn hdq hbody
   have hps := psStd_std keys m md true br hn
   have hpk : peekImpl (mkPS (stdF keys m md true br)) env.s st.pos = _ :=
     (peekImpl_ws hd hw hnl (by decide)).trans (peekAtChar_open hps hdq)
   refine ⟨p, by omega, hdp, ?_⟩
-  have := reach_dispatch (stop := stop) (child := child) htol hpk (stop_test_char stop _ (Or.inr (Or.inl rfl))) rfl (by omega)
-    (dispatch_group (K := stdF keys m md true) rfl (hch _ (fun _ => rfl)) hgrp)
-  rw [hshape] at this
-  exact this
+  exact reachX_dispatch (stop := stop) (child := child) htol hpk (stop_test_char stop _ (Or.inr (Or.inl rfl))) rfl (by omega)
+    (dispatch_group (K := stdF keys m md true) rfl (hch _ (fun _ => rfl)) hgrp) hshape rfl
 
 /-- a comment with its newline and the whitespace behind it -/
-theorem step_comment (htol : env.tol = false) (hn : NormOk m md) {st : LoopSt} {w text post r : Str}
+theorem step_commentX (htol : env.tol = false) (hn : NormOk m md) {st : LoopSt} {w text post r : Str}
     (hd : env.s.drop st.pos = w ++ ('%' :: (text ++ '\n' :: (post ++ r)))) (hw : isWs w = true) (hnl : countNl w < 2)
     (htext : text.contains '\n' = false) (hws : isWs ('\n' :: post) = true) (hnl2 : countNl ('\n' :: post) < 2)
     (hr : headIs isPySpace r = false) :
     ∃ p, st.pos ≤ p ∧ env.s.drop p = r ∧
-      Reaches env (stdF keys m md true br) stop child st (pendSh w ++ [.comment text]) (p - st.pos) := by
+      ReachesX env (stdF keys m md true br) stop child st (pendX w ++ [.comment text ('\n' :: post)]) (p - st.pos) := by
   have hdq : env.s.drop (st.pos + w.length) = '%' :: (text ++ '\n' :: (post ++ r)) := drop_add_of_drop hd
   have hps := psStd_std keys m md true br hn
   have hpk : peekImpl (mkPS (stdF keys m md true br)) env.s st.pos = _ :=
@@ -290,16 +184,16 @@ theorem step_comment (htol : env.tol = false) (hn : NormOk m md) {st : LoopSt} {
     have d3 := drop_succ_of_drop d2
     have d4 := drop_add_of_drop d3
     rw [← d4]; congr 1; omega
-  · exact reach_dispatch (stop := stop) (child := child) htol hpk
+  · exact reachX_dispatch (stop := stop) (child := child) htol hpk
       (stop_test_char stop _ (Or.inr (Or.inr (Or.inr (Or.inl rfl))))) rfl
-      (by show st.pos ≤ st.pos + w.length + 1 + text.length + (1 + post.length); omega) (dispatch_comment rfl)
+      (by show st.pos ≤ st.pos + w.length + 1 + text.length + (1 + post.length); omega) (dispatch_comment rfl) rfl rfl
 
 /-- a comment in front of a paragraph break: the collector stops right behind the comment's text -/
-theorem step_comment_par (htol : env.tol = false) (hn : NormOk m md) {st : LoopSt} {w text R : Str}
+theorem step_comment_parX (htol : env.tol = false) (hn : NormOk m md) {st : LoopSt} {w text R : Str}
     (hd : env.s.drop st.pos = w ++ ('%' :: (text ++ '\n' :: R))) (hw : isWs w = true) (hnl : countNl w < 2)
     (htext : text.contains '\n' = false) (hpar : parStart ('\n' :: R) = true) :
     env.s.drop (st.pos + (w.length + 1 + text.length)) = '\n' :: R ∧
-      Reaches env (stdF keys m md true br) stop child st (pendSh w ++ [.comment text]) (w.length + 1 + text.length) := by
+      ReachesX env (stdF keys m md true br) stop child st (pendX w ++ [.comment text []]) (w.length + 1 + text.length) := by
   have hdq : env.s.drop (st.pos + w.length) = '%' :: (text ++ '\n' :: R) := drop_add_of_drop hd
   have hps := psStd_std keys m md true br hn
   have hpk : peekImpl (mkPS (stdF keys m md true br)) env.s st.pos = _ :=
@@ -308,23 +202,23 @@ theorem step_comment_par (htol : env.tol = false) (hn : NormOk m md) {st : LoopS
   · have d1 := drop_succ_of_drop hdq
     have d2 := drop_add_of_drop d1
     rw [← d2]; congr 1; omega
-  · have := reach_dispatch (stop := stop) (child := child) htol hpk
+  · have := reachX_dispatch (stop := stop) (child := child) htol hpk
       (stop_test_char stop _ (Or.inr (Or.inr (Or.inr (Or.inl rfl))))) rfl
-      (by show st.pos ≤ st.pos + w.length + 1 + text.length; omega) (dispatch_comment rfl)
+      (by show st.pos ≤ st.pos + w.length + 1 + text.length; omega) (dispatch_comment rfl) rfl rfl
     have e : st.pos + w.length + 1 + text.length - st.pos = w.length + 1 + text.length := by omega
     rw [e] at this
     exact this
 
 /-- the shape a paragraph break stands for -/
-def parShape (ctx : Ctx) (x : Str) : Shape := if parSpec ctx then .specials ['\n', '\n'] [] else .chars x
+def parShapeX (ctx : Ctx) (x : Str) : XNode := if parSpec ctx then .specials ['\n', '\n'] (some []) else .chars x
 
 /-- a paragraph break in the collector -/
-theorem reach_par (ctx : Ctx) (htol : env.tol = false) (hn : NormOk m md) (hctx : env.ctx = ctx) (hkeys : ctxKeys ctx = keys)
+theorem reach_parX (ctx : Ctx) (htol : env.tol = false) (hn : NormOk m md) (hctx : env.ctx = ctx) (hkeys : ctxKeys ctx = keys)
     (hpc : parCore ctx = true)
     (hch : ∀ t : Token, (t.kind = .braceOpen → t.arg = ['{']) → child.get (stdF keys m md true br) t = stdF keys m md true)
     {st : LoopSt} {x r : Str} (hd : env.s.drop st.pos = x ++ r) (hw : isWs x = true) (hnl : countNl x ≥ 2)
     (hh : x.head? = some '\n') (hl : x.getLast? = some '\n') (hr : headIs isPySpace r = false) :
-    Reaches env (stdF keys m md true br) stop child st [parShape ctx x] x.length := by
+    ReachesX env (stdF keys m md true br) stop child st [parShapeX ctx x] x.length := by
   have hps := psStd_std keys m md true br hn
   have hpk := peekImpl_par (ps := mkPS (stdF keys m md true br)) hd hw hnl hh hl hr hps.dn
   have hpsp : parSpecials (mkPS (stdF keys m md true br)) = parSpec ctx := by
@@ -332,7 +226,7 @@ theorem reach_par (ctx : Ctx) (htol : env.tol = false) (hn : NormOk m md) (hctx 
     rw [hps.hc, hps.sp, ← hkeys]
     rfl
   rw [hpsp] at hpk
-  unfold parShape
+  unfold parShapeX
   cases hpsc : parSpec ctx with
   | true =>
     rw [hpsc] at hpk
@@ -355,30 +249,30 @@ theorem reach_par (ctx : Ctx) (htol : env.tol = false) (hn : NormOk m md) (hctx 
         | unknown => cases hpc
     have hcall := specialsCall_runs (t := ({ kind := TokKind.specials, arg := ['\n', '\n'], pos := st.pos, posEnd := st.pos + x.length, pre := [] } : Token))
       (arguments_runs (argsEv_nil (env := env) (stdF keys m md true) [] (st.pos + x.length)))
-    have := reach_dispatch (stop := stop) (child := child) htol hpk
+    have := reachX_dispatch (stop := stop) (child := child) htol hpk
       (stop_test_char stop _ (Or.inr (Or.inr (Or.inr (Or.inr (Or.inl rfl)))))) rfl
       (by show st.pos ≤ st.pos + x.length; omega)
-      (dispatch_specials (K := stdF keys m md true) rfl hspec (hch _ (fun h => by cases h)) hcall)
+      (dispatch_specials (K := stdF keys m md true) rfl hspec (hch _ (fun h => by cases h)) hcall) rfl rfl
     have e : st.pos + x.length - st.pos = x.length := by omega
     rw [e] at this
     exact this
   | false =>
     rw [hpsc] at hpk
     simp only [Bool.false_eq_true, if_false] at hpk ⊢
-    have := reach_charTok (stop := stop) (child := child) htol hpk rfl (by show st.pos ≤ st.pos + x.length; omega)
+    have := reachX_charTok (stop := stop) (child := child) htol hpk rfl (by show st.pos ≤ st.pos + x.length; omega)
     have e : st.pos + x.length - st.pos = x.length := by omega
     simp only [e] at this
-    refine Reaches.congr ?_ this
+    refine ReachesX.congr ?_ this
     have hx : x.isEmpty = false := by
       cases x with
       | nil => cases hh
       | cons c x => rfl
-    show mergeChars (pendSh [] ++ pendSh x) = _
-    rw [pendSh_ne hx]
+    show mergeX (pendX [] ++ pendX x) = _
+    rw [pendX_ne hx]
     rfl
 
 /-- a macro call in the collector (the control-word token is a hypothesis) -/
-theorem step_macro (htol : env.tol = false)
+theorem step_macroX (htol : env.tol = false)
     (hch : ∀ t : Token, (t.kind = .braceOpen → t.arg = ['{']) → child.get (stdF keys m md true br) t = stdF keys m md true)
     {st : LoopSt} {w post X : Str} {c0 : Char} {name' : Str} {al : List Arg} {pA : Nat}
     (hd : env.s.drop st.pos = w ++ ('\\' :: ((c0 :: name') ++ X))) (hw : isWs w = true) (hnl : countNl w < 2)
@@ -389,47 +283,28 @@ theorem step_macro (htol : env.tol = false)
     (hargs : Ev env (.pc (.arguments a) (stdF keys m md true) (st.pos + w.length + 1 + (c0 :: name').length + post.length))
       (.ok (.args x y al) pA))
     (hpA : st.pos ≤ pA) :
-    Reaches env (stdF keys m md true br) stop child st (pendSh w ++ [.mac (c0 :: name') (some (shapeOfArgList al))]) (pA - st.pos) := by
+    ReachesX env (stdF keys m md true br) stop child st (pendX w ++ [.mac (c0 :: name') post (some (eraseArgList env.s al))]) (pA - st.pos) := by
   have hpk : peekImpl (mkPS (stdF keys m md true br)) env.s st.pos = _ :=
     (peekImpl_ws hd hw hnl (by decide)).trans htok
   have hcall := macroCall_runs (t := ({ kind := TokKind.macro, arg := (c0 :: name'), pos := st.pos + w.length, posEnd := st.pos + w.length + 1 + (c0 :: name').length + post.length, pre := [], post := post } : Token)) hargs
-  exact reach_dispatch (stop := stop) (child := child) htol hpk
+  exact reachX_dispatch (stop := stop) (child := child) htol hpk
     (stop_test_char stop _ (Or.inr (Or.inr (Or.inl rfl)))) rfl hpA
-    (dispatch_macro (K := stdF keys m md true) rfl hspec (hch _ (fun h => by cases h)) hcall)
-
-theorem stop_endEnv_math (n : Str) (t : Token) (h : t.kind = .mathInline ∨ t.kind = .mathDisplay) :
-    (StopTok.endEnv n).test t = false := by
-  rcases h with h | h <;> (simp only [StopTok.test, h]; rfl)
-
-theorem envBodyF_eq (bm : Bool) :
-    (if bm then applyDelta (stdF keys m md true) .enterMath else stdF keys m md true) =
-      stdF keys (m || bm) (if bm then none else md) true := by
-  cases bm with
-  | true => cases m <;> rfl
-  | false => cases m <;> rfl
-
-theorem normOk_envBody (hn : NormOk m md) (bm : Bool) : NormOk (m || bm) (if bm then none else md) := by
-  cases bm with
-  | true => intro _; rfl
-  | false =>
-    intro h
-    have : m = false := by cases m <;> first | rfl | cases h
-    simpa using hn this
+    (dispatch_macro (K := stdF keys m md true) rfl hspec (hch _ (fun h => by cases h)) hcall) rfl rfl
 
 /-- an environment in the collector: `\begin{name}`, the arguments, the body up to `\end{name}` -/
-theorem step_env (htol : env.tol = false) (hn : NormOk m md)
+theorem step_envX (htol : env.tol = false) (hn : NormOk m md)
     (hch : ∀ t : Token, (t.kind = .braceOpen → t.arg = ['{']) → child.get (stdF keys m md true br) t = stdF keys m md true)
-    {st : LoopSt} {w name A Y : Str} {sig : List ArgSpec} {bm : Bool} {al : List Arg} {pA : Nat} {trb : List Shape}
-    (hd : env.s.drop st.pos = w ++ (beginStr name ++ A)) (hw : isWs w = true) (hnl : countNl w < 2)
+    {st : LoopSt} {w name A B Y : Str} {sig : List ArgSpec} {bm : Bool} {al : List Arg} {pA : Nat} {trb : List XNode}
+    (hd : env.s.drop st.pos = w ++ (beginStr name ++ A)) (hA : A = B ++ (endStr name ++ Y)) (hw : isWs w = true) (hnl : countNl w < 2)
     (hne : name ≠ []) (hall : name.all isEnvNameChar = true)
     (hspec : env.ctx.envSpec name = some (.std sig, bm))
     (hargs : ArgsEv env (stdF keys m md true) sig [] (st.pos + w.length + (beginStr name).length) (.ok (.args none none al) pA))
     (hpA : st.pos ≤ pA)
-    (hbody : ReachesW env (stdF keys (m || bm) (if bm then none else md) true) (.endEnv name) .same { pos := pA } [] trb
+    (hbody : ReachesWX env (stdF keys (m || bm) (if bm then none else md) true) (.endEnv name) .same { pos := pA } [] trb
       (endStr name ++ Y)) :
     ∃ p, st.pos ≤ p ∧ env.s.drop p = Y ∧
-      Reaches env (stdF keys m md true br) stop child st
-        (pendSh w ++ [.env name (some (shapeOfArgList al)) (some (normList trb))]) (p - st.pos) := by
+      ReachesX env (stdF keys m md true br) stop child st
+        (pendX w ++ [.env (beginStr name ++ (B ++ endStr name)) name (some (eraseArgList env.s al)) (some (mergeX trb))]) (p - st.pos) := by
   obtain ⟨tr, n, w', hreach, hdrop, hw', hn', hm⟩ := hbody
   have hdrop' : env.s.drop (pA + n) = w' ++ ('\\' :: (envWordStr false ++ '{' :: (name ++ '}' :: Y))) := by
     rw [← endStr_append]; exact hdrop
@@ -444,7 +319,7 @@ theorem step_env (htol : env.tol = false) (hn : NormOk m md)
     intro a b
     simp [StopTok.test]
     rfl
-  obtain ⟨a, b, ns, hgen, hsh⟩ := body_runs htol hreach hpkc (hst _ _) rfl
+  obtain ⟨a, b, ns, hgen, hsh⟩ := bodyX_runs htol hreach hpkc (hst _ _) rfl
   -- the call
   have hdq : env.s.drop (st.pos + w.length) = '\\' :: (envWordStr true ++ '{' :: (name ++ '}' :: A)) := by
     rw [← beginStr_append]; exact drop_add_of_drop hd
@@ -472,26 +347,36 @@ theorem step_env (htol : env.tol = false) (hn : NormOk m md)
     rw [endStr_length] at h2
     rw [← h2]; congr 1; omega
   refine ⟨pA + n + w'.length + 1 + envWordLen false + 1 + name.length + 1, by omega, hdY, ?_⟩
-  have := reach_dispatch (stop := stop) (child := child) htol hpk
-    (stop_test_char stop _ (Or.inr (Or.inr (Or.inr (Or.inr (Or.inr rfl)))))) rfl (by omega)
-    (dispatch_env (K := stdF keys m md true) (ab := (.std sig, bm)) rfl hspec (hch _ (fun h => by cases h)) hcall)
-  have e : shapeOf (Node.env (st.pos + w.length) (pA + n + w'.length + 1 + envWordLen false + 1 + name.length + 1)
+  have hne2 : endStr name ++ Y ≠ [] := by rw [endStr_append]; exact List.cons_ne_nil _ _
+  have hlen : st.pos + w.length + (beginStr name).length + B.length = pA + n + w'.length :=
+    pos_of_drops (by rw [← hA]; exact drop_add_of_drop (drop_add_of_drop hd)) hdrop hne2
+  have hsl : slice env.s (st.pos + w.length) (pA + n + w'.length + 1 + envWordLen false + 1 + name.length + 1) =
+      beginStr name ++ (B ++ endStr name) := by
+    have h0 : env.s.drop (st.pos + w.length) = (beginStr name ++ (B ++ endStr name)) ++ Y := by
+      rw [drop_add_of_drop hd, hA]; simp only [List.append_assoc]
+    have := slice_of_drop h0
+    rw [← this]
+    congr 1
+    simp only [List.length_append, endStr_length]
+    omega
+  have e : erase env.s (Node.env (st.pos + w.length) (pA + n + w'.length + 1 + envWordLen false + 1 + name.length + 1)
       (psInfo (stdF keys m md true)) name (some al) (some ns))
-      = .env name (some (shapeOfArgList al)) (some (normList trb)) := by
-    simp only [shapeOf, shapeOfArgs, shapeOfBody]
-    rw [normList_congr (hsh.trans hm)]
-    rfl
-  rw [e] at this
-  exact this
+      = .env (beginStr name ++ (B ++ endStr name)) name (some (eraseArgList env.s al)) (some (mergeX trb)) := by
+    simp only [erase, eraseArgs, eraseBody]
+    rw [hsh, hsl]
+    exact congrArg _ (congrArg _ hm)
+  exact reachX_dispatch (stop := stop) (child := child) htol hpk
+    (stop_test_char stop _ (Or.inr (Or.inr (Or.inr (Or.inr (Or.inr rfl)))))) rfl (by omega)
+    (dispatch_env (K := stdF keys m md true) (ab := (.std sig, bm)) rfl hspec (hch _ (fun h => by cases h)) hcall) e rfl
 
 /-- a specials item in the collector -/
-theorem step_specials (htol : env.tol = false) (hn : NormOk m md) (hx : XpOk br)
+theorem step_specialsX (htol : env.tol = false) (hn : NormOk m md) (hx : XpOk br)
     (hch : ∀ t : Token, (t.kind = .braceOpen → t.arg = ['{']) → child.get (stdF keys m md true br) t = stdF keys m md true)
     {st : LoopSt} {w R : Str} {c : Char} {name' : Str}
     (hd : env.s.drop st.pos = w ++ ((c :: name') ++ R)) (hw : isWs w = true) (hnl : countNl w < 2)
     (hc : specialsHeadOk c = true) (hts : testSpecials keys ((c :: name') ++ R) 0 = some (c :: name'))
     (hspec : lookupFirst (c :: name') env.ctx.specials = some (.std [])) :
-    Reaches env (stdF keys m md true br) stop child st (pendSh w ++ [.specials (c :: name') []]) (w.length + (c :: name').length) := by
+    ReachesX env (stdF keys m md true br) stop child st (pendX w ++ [.specials (c :: name') (some [])]) (w.length + (c :: name').length) := by
   have hdq : env.s.drop (st.pos + w.length) = (c :: name') ++ R := drop_add_of_drop hd
   have hps := psStd_std keys m md true br hn
   have hcs := specialsHead_ne hc
@@ -499,10 +384,10 @@ theorem step_specials (htol : env.tol = false) (hn : NormOk m md) (hx : XpOk br)
     (peekImpl_ws (c := c) (rest := name' ++ R) (by rw [hd]; rfl) hw hnl hcs.1).trans (peekAtChar_specials hps hx hdq hc hts)
   have hcall := specialsCall_runs (t := ({ kind := TokKind.specials, arg := (c :: name'), pos := st.pos + w.length, posEnd := st.pos + w.length + (c :: name').length, pre := [] } : Token))
     (arguments_runs (argsEv_nil (env := env) (stdF keys m md true) [] (st.pos + w.length + (c :: name').length)))
-  have := reach_dispatch (stop := stop) (child := child) htol hpk
+  have := reachX_dispatch (stop := stop) (child := child) htol hpk
     (stop_test_char stop _ (Or.inr (Or.inr (Or.inr (Or.inr (Or.inl rfl)))))) rfl
     (by show st.pos ≤ st.pos + w.length + (c :: name').length; omega)
-    (dispatch_specials (K := stdF keys m md true) rfl hspec (hch _ (fun h => by cases h)) hcall)
+    (dispatch_specials (K := stdF keys m md true) rfl hspec (hch _ (fun h => by cases h)) hcall) rfl rfl
   have e : st.pos + w.length + (c :: name').length - st.pos = w.length + (c :: name').length := by omega
   rw [e] at this
   exact this
@@ -510,16 +395,17 @@ theorem step_specials (htol : env.tol = false) (hn : NormOk m md) (hx : XpOk br)
 end steps
 
 /-- math in the collector -/
-theorem step_math (htol : env.tol = false) (k : FKind) {br : Xp} {stop : StopTok} {child : ChildPS}
+theorem step_mathX (htol : env.tol = false) (k : FKind) {br : Xp} {stop : StopTok} {child : ChildPS}
     (hch : ∀ t : Token, (t.kind = .braceOpen → t.arg = ['{']) → child.get (stdF keys false none true br) t = stdF keys false none true)
     (hstop : ∀ t : Token, t.kind = .mathInline ∨ t.kind = .mathDisplay → stop.test t = false)
-    {st : LoopSt} {w X Y : Str} {trb : List Shape} (hd : env.s.drop st.pos = w ++ (k.opener ++ X)) (hw : isWs w = true)
+    {st : LoopSt} {w X B Y : Str} {trb : List XNode} (hd : env.s.drop st.pos = w ++ (k.opener ++ X))
+    (hX : X = B ++ (k.closer ++ Y)) (hw : isWs w = true)
     (hnl : countNl w < 2) (hdollar : k = .dollar → headIs (· == '$') X = false)
-    (hbody : ReachesW env (stdF keys true (some k.opener) true) (.mathClose k.display k.closer) .same
+    (hbody : ReachesWX env (stdF keys true (some k.opener) true) (.mathClose k.display k.closer) .same
       { pos := st.pos + w.length + k.opener.length } [] trb (k.closer ++ Y)) :
     ∃ p, st.pos ≤ p ∧ env.s.drop p = Y ∧
-      Reaches env (stdF keys false none true br) stop child st
-        (pendSh w ++ [.math k.display k.opener k.closer (some (normList trb))]) (p - st.pos) := by
+      ReachesX env (stdF keys false none true br) stop child st
+        (pendX w ++ [.math (k.opener ++ (B ++ k.closer)) k.display k.opener k.closer (some (mergeX trb))]) (p - st.pos) := by
   have hdq : env.s.drop (st.pos + w.length) = k.opener ++ X := drop_add_of_drop hd
   obtain ⟨tr, n, w', hreach, hdrop, hw', hn', hm⟩ := hbody
   have hdrop' : env.s.drop (st.pos + w.length + k.opener.length + n) = w' ++ (k.closer ++ Y) := hdrop
@@ -536,7 +422,7 @@ theorem step_math (htol : env.tol = false) (k : FKind) {br : Xp} {stop : StopTok
       (peekAtChar_mathClose k hpsM (drop_add_of_drop hdrop') (by rw [hcc]; rfl))
   have hst : (StopTok.mathClose k.display k.closer).test (mathTok (st.pos + w.length + k.opener.length + n + w'.length) w' k.closer k.display) = true := by
     cases k <;> rfl
-  obtain ⟨a, b, ns, hgen, hsh⟩ := body_runs htol hreach hpkc hst rfl
+  obtain ⟨a, b, ns, hgen, hsh⟩ := bodyX_runs htol hreach hpkc hst rfl
   have hmath := math_runs htol k hdq hdollar hgen
   -- the opener
   obtain ⟨co, ro, hco⟩ : ∃ c r0, k.opener = c :: r0 := by cases k <;> exact ⟨_, _, rfl⟩
@@ -556,82 +442,48 @@ theorem step_math (htol : env.tol = false) (k : FKind) {br : Xp} {stop : StopTok
   rw [hposEnd] at hgen hmath
   refine ⟨st.pos + w.length + k.opener.length + n + w'.length + k.closer.length, by omega, ?_, ?_⟩
   · exact drop_add_of_drop (drop_add_of_drop hdrop')
-  · have := reach_dispatch (stop := stop) (child := child) htol hpk (hstop _ hkindm) hkc (by omega)
-      (dispatch_math (K := stdF keys false none true) (tk := { mathTok (st.pos + w.length) w k.opener k.display with pre := [] })
-        hkindm (hch _ (fun h => by cases k <;> cases h)) hopen hmath)
-    have e : shapeOf (Node.math (st.pos + w.length) (st.pos + w.length + k.opener.length + n + w'.length + k.closer.length)
+  · have hne2 : k.closer ++ Y ≠ [] := by rw [hcc]; exact List.cons_ne_nil _ _
+    have hlen : st.pos + w.length + k.opener.length + B.length = st.pos + w.length + k.opener.length + n + w'.length :=
+      pos_of_drops (by rw [← hX]; exact drop_add_of_drop hdq) hdrop' hne2
+    have hsl : slice env.s (st.pos + w.length) (st.pos + w.length + k.opener.length + n + w'.length + k.closer.length) =
+        k.opener ++ (B ++ k.closer) := by
+      have h0 : env.s.drop (st.pos + w.length) = (k.opener ++ (B ++ k.closer)) ++ Y := by
+        rw [hdq, hX]; simp only [List.append_assoc]
+      have := slice_of_drop h0
+      rw [← this]
+      congr 1
+      simp only [List.length_append]
+      omega
+    have e : erase env.s (Node.math (st.pos + w.length) (st.pos + w.length + k.opener.length + n + w'.length + k.closer.length)
         (psInfo (stdF keys false none true)) k.display k.opener k.closer (some ns))
-        = .math k.display k.opener k.closer (some (normList trb)) := by
-      simp only [shapeOf, shapeOfBody]
-      rw [normList_congr (hsh.trans hm)]
-      rfl
-    rw [e] at this
-    exact this
+        = .math (k.opener ++ (B ++ k.closer)) k.display k.opener k.closer (some (mergeX trb)) := by
+      simp only [erase, eraseBody]
+      rw [hsh, hsl]
+      exact congrArg _ (congrArg _ hm)
+    exact reachX_dispatch (stop := stop) (child := child) htol hpk (hstop _ hkindm) hkc (by omega)
+      (dispatch_math (K := stdF keys false none true) (tk := { mathTok (st.pos + w.length) w k.opener k.display with pre := [] })
+        hkindm (hch _ (fun h => by cases k <;> cases h)) hopen hmath) e rfl
 
 /-- a comment followed by something that is not whitespace, the rest being handled by `hrec` -/
-theorem comment_then (ctx : Ctx) (htol : env.tol = false) {m : Bool} {md : Option Str} (hn : NormOk m md) {br : Xp}
+theorem comment_thenX (ctx : Ctx) (htol : env.tol = false) {m : Bool} {md : Option Str} (hn : NormOk m md) {br : Xp}
     {stop : StopTok} {child : ChildPS} {X : List Item} {text ind after w : Str} {st : LoopSt}
-    (hprev : treeRaw ctx (some ('\n' :: ind)) X = treeRaw ctx none X)
+    (hprev : exactRaw ctx (some ('\n' :: ind)) X = exactRaw ctx none X)
+    (hpost : C03.commentPost ('\n' :: ind) X = '\n' :: ind)
     (hd : env.s.drop st.pos = w ++ (unparseItems (.C text ('\n' :: ind) :: X) ++ after)) (hw : isWs w = true)
     (hnl : countNl w < 2) (htext : text.contains '\n' = false) (hws : isWs ('\n' :: ind) = true)
     (hnl2 : countNl ('\n' :: ind) < 2) (hhead2 : headIs isPySpace (unparseItems X ++ after) = false)
     (hrec : ∀ (st : LoopSt) (w : Str), isWs w = true → countNl w < 2 →
       (w = [] ∨ headIs isPySpace (unparseItems X ++ after) = false) →
       env.s.drop st.pos = w ++ (unparseItems X ++ after) →
-      ReachesW env (stdF keys m md true br) stop child st w (treeRaw ctx none X) after) :
-    ReachesW env (stdF keys m md true br) stop child st w (treeRaw ctx none (.C text ('\n' :: ind) :: X)) after := by
+      ReachesWX env (stdF keys m md true br) stop child st w (exactRaw ctx none X) after) :
+    ReachesWX env (stdF keys m md true br) stop child st w (exactRaw ctx none (.C text ('\n' :: ind) :: X)) after := by
   have hd' : env.s.drop st.pos = w ++ ('%' :: (text ++ '\n' :: (ind ++ (unparseItems X ++ after)))) := by
     rw [hd]; simp only [unparseItems, List.cons_append, List.append_assoc]
-  obtain ⟨p, hp, hdp, hr⟩ := step_comment (br := br) (stop := stop) (child := child) htol hn hd' hw hnl htext hws hnl2 hhead2
-  have := ReachesW.step hr rfl (fun st1 hp1 => hrec st1 [] rfl (by decide) (Or.inl rfl) (by
+  obtain ⟨p, hp, hdp, hr⟩ := step_commentX (br := br) (stop := stop) (child := child) htol hn hd' hw hnl htext hws hnl2 hhead2
+  have := ReachesWX.step hr rfl (fun st1 hp1 => hrec st1 [] rfl (by decide) (Or.inl rfl) (by
     have e : st.pos + (p - st.pos) = p := by omega
     rw [hp1, e]; exact hdp))
-  simpa only [treeRaw, hprev, List.singleton_append] using this
-
-theorem argKind_t_of_beq (k : ArgKind) (c : Char) (h : (k == ArgKind.t c) = true) : k = .t c := by
-  cases k with
-  | t c' =>
-    have : c' = c := by
-      by_cases e : c' = c
-      · exact e
-      · exfalso
-        have : (ArgKind.t c' == ArgKind.t c) = decide (c' = c) := rfl
-        rw [this] at h
-        simp [e] at h
-    rw [this]
-  | _ => cases h
-theorem argKind_r_of_beq (k : ArgKind) (o c : Char) (h : (k == ArgKind.r o c) = true) : k = .r o c := by
-  cases k with
-  | r o' c' =>
-    have : (ArgKind.r o' c' == ArgKind.r o c) = (decide (o' = o) && decide (c' = c)) := rfl
-    rw [this] at h
-    simp at h
-    rw [h.1, h.2]
-  | _ => cases h
-theorem argKind_d_of_beq (k : ArgKind) (o c : Char) (h : (k == ArgKind.d o c) = true) : k = .d o c := by
-  cases k with
-  | d o' c' =>
-    have : (ArgKind.d o' c' == ArgKind.d o c) = (decide (o' = o) && decide (c' = c)) := rfl
-    rw [this] at h
-    simp at h
-    rw [h.1, h.2]
-  | _ => cases h
-
-theorem argKind_s_of_beq (k : ArgKind) (h : (k == ArgKind.s) = true) : k = .s := by
-  cases k <;> first | rfl | cases h
-
-theorem argKind_m_of_beq (k : ArgKind) (h : (k == ArgKind.m) = true) : k = .m := by
-  cases k <;> first | rfl | cases h
-
-theorem parStart_of {x r : Str} (hw : isWs x = true) (hn : countNl x ≥ 2) (hh : x.head? = some '\n')
-    (hr : headIs isPySpace r = false) : parStart (x ++ r) = true := by
-  unfold parStart
-  rw [takeWhile_ws hw hr]
-  cases x with
-  | nil => cases hh
-  | cons c x =>
-    simp only [List.cons_append, List.head?_cons] at hh ⊢
-    simp [hh, hn]
+  simpa only [exactRaw, hprev, hpost, List.singleton_append] using this
 
 /-! ### the prefix lemma, by recursion on the derivation -/
 
@@ -639,7 +491,7 @@ mutual
 /-- **prefix lemma.**  With the collector in front of `w ++ unparse a ++ after` (`w` whitespace not yet read; any
     pending characters, any accumulated nodes, any stop condition), it produces the structure of `a` and stands in
     front of (whitespace and) `after`. -/
-theorem items_reach (ctx : Ctx) (htol : env.tol = false) (hk : keysCore keys = true) (hctx : env.ctx = ctx)
+theorem items_reachX (ctx : Ctx) (htol : env.tol = false) (hk : keysCore keys = true) (hctx : env.ctx = ctx)
     (hkeys : ctxKeys ctx = keys) :
     ∀ (a : List Item) (m : Bool) (after : Str), coreItems ctx m after a = true → ∀ (md : Option Str), NormOk m md →
       ∀ (br : Xp) (stop : StopTok) (child : ChildPS), XpOk br →
@@ -648,20 +500,20 @@ theorem items_reach (ctx : Ctx) (htol : env.tol = false) (hk : keysCore keys = t
       ∀ (st : LoopSt) (w : Str), isWs w = true → countNl w < 2 →
         (w = [] ∨ headIs isPySpace (unparseItems a ++ after) = false) →
         env.s.drop st.pos = w ++ (unparseItems a ++ after) →
-        ReachesW env (stdF keys m md true br) stop child st w (treeRaw ctx none a) after
+        ReachesWX env (stdF keys m md true br) stop child st w (exactRaw ctx none a) after
   | [], m, after, _, md, _, br, stop, child, _, _, _, st, w, hw, hnl, _, hd => by
     simp only [unparseItems, List.nil_append] at hd
-    simpa only [treeRaw] using ReachesW.nil hd hw hnl
+    simpa only [exactRaw] using ReachesWX.nil hd hw hnl
   | .T t :: tl, m, after, hc, md, hn, br, stop, child, hx, hch, hsm, st, w, hw, hnl, _, hd => by
     simp only [coreItems, Bool.and_eq_true, Bool.not_eq_eq_eq_not, Bool.not_true] at hc
     obtain ⟨⟨hne, hall⟩, htl⟩ := hc
     simp only [unparseItems, List.append_assoc] at hd
-    have h1 := reach_text (br := br) (stop := stop) (child := child) htol hn hx hk hd hw hnl
+    have h1 := reach_textX (br := br) (stop := stop) (child := child) htol hn hx hk hd hw hnl
       (by intro e; rw [e] at hne; simp at hne) hall
-    have := ReachesW.step h1 rfl (fun st1 hp => items_reach ctx htol hk hctx hkeys tl m after htl md hn br stop child hx hch hsm
+    have := ReachesWX.step h1 rfl (fun st1 hp => items_reachX ctx htol hk hctx hkeys tl m after htl md hn br stop child hx hch hsm
       st1 [] rfl (by decide) (Or.inl rfl) (by
         rw [hp, ← Nat.add_assoc]; exact drop_add_of_drop (drop_add_of_drop hd)))
-    simpa only [treeRaw, List.singleton_append] using this
+    simpa only [exactRaw, List.singleton_append] using this
   | .W w2 :: tl, m, after, hc, md, hn, br, stop, child, hx, hch, hsm, st, w, hw, hnl, hpre, hd => by
     simp only [coreItems, Bool.and_eq_true, Bool.not_eq_eq_eq_not, Bool.not_true, decide_eq_true_eq] at hc
     obtain ⟨⟨⟨⟨hne, hws⟩, hnl2⟩, hhead⟩, htl⟩ := hc
@@ -676,26 +528,26 @@ theorem items_reach (ctx : Ctx) (htol : env.tol = false) (hk : keysCore keys = t
           simp [unparseItems, headIs, hws.1] at h
     subst hw0
     simp only [unparseItems, List.append_assoc, List.nil_append] at hd
-    obtain ⟨tr, n, w', h1, h2, h3, h4, h5⟩ := items_reach ctx htol hk hctx hkeys tl m after htl md hn br stop child hx hch hsm
+    obtain ⟨tr, n, w', h1, h2, h3, h4, h5⟩ := items_reachX ctx htol hk hctx hkeys tl m after htl md hn br stop child hx hch hsm
       st w2 hws hnl2 (Or.inr hhead) hd
     refine ⟨tr, n, w', h1, h2, h3, h4, ?_⟩
-    rw [h5, pendSh_ne hne]
-    simp only [treeRaw, pendSh, List.isEmpty_nil, if_true, List.nil_append, List.singleton_append]
+    rw [h5, pendX_ne hne]
+    simp only [exactRaw, pendX, List.isEmpty_nil, if_true, List.nil_append, List.singleton_append]
   | .G b :: tl, m, after, hc, md, hn, br, stop, child, hx, hch, hsm, st, w, hw, hnl, _, hd => by
     simp only [coreItems, Bool.and_eq_true] at hc
     obtain ⟨hb, htl⟩ := hc
     simp only [unparseItems, List.cons_append, List.append_assoc] at hd
     have hd1 : env.s.drop (st.pos + w.length + 1) = [] ++ (unparseItems b ++ '}' :: (unparseItems tl ++ after)) :=
       drop_succ_of_drop (drop_add_of_drop hd)
-    have hbody := items_reach ctx htol hk hctx hkeys b m ('}' :: (unparseItems tl ++ after)) hb md hn none (.braceClose ['}'])
+    have hbody := items_reachX ctx htol hk hctx hkeys b m ('}' :: (unparseItems tl ++ after)) hb md hn none (.braceClose ['}'])
       (.group ['{'] (stdF keys m md true) (stdF keys m md true)) trivial (fun t _ => child_group _ _ t)
       (fun _ t ht => stop_brace_math _ t ht) { pos := st.pos + w.length + 1 } [] rfl (by decide) (Or.inl rfl) hd1
-    obtain ⟨p, hp, hdp, hr⟩ := step_group (br := br) (stop := stop) (child := child) htol hn hch hd hw hnl hbody
-    have := ReachesW.step hr rfl (fun st1 hp1 => items_reach ctx htol hk hctx hkeys tl m after htl md hn br stop child hx hch hsm
+    obtain ⟨p, hp, hdp, hr⟩ := step_groupX (br := br) (stop := stop) (child := child) htol hn hch hd hw hnl hbody
+    have := ReachesWX.step hr rfl (fun st1 hp1 => items_reachX ctx htol hk hctx hkeys tl m after htl md hn br stop child hx hch hsm
       st1 [] rfl (by decide) (Or.inl rfl) (by
         have e : st.pos + (p - st.pos) = p := by omega
         rw [hp1, e]; exact hdp))
-    simpa only [treeRaw, List.singleton_append] using this
+    simpa only [exactRaw, List.singleton_append] using this
   | .C text tail :: tl, m, after, hc, md, hn, br, stop, child, hx, hch, hsm, st, w, hw, hnl, _, hd => by
     cases htlq : tl with
     | nil =>
@@ -711,13 +563,13 @@ theorem items_reach (ctx : Ctx) (htol : env.tol = false) (hk : keysCore keys = t
       | cons c0 ind =>
         have hc0 : c0 = '\n' := by simpa using hhead
         subst hc0
-        exact comment_then ctx htol hn (by simp only [treeRaw]) hd hw hnl htext hws hnl2 hhead2
+        exact comment_thenX ctx htol hn (by simp only [exactRaw]) rfl hd hw hnl htext hws hnl2 hhead2
           (fun st1 w1 hw1 hnl1 _ hd1 => by
             simp only [unparseItems, List.nil_append] at hd1
-            simpa only [treeRaw] using ReachesW.nil hd1 hw1 hnl1)
+            simpa only [exactRaw] using ReachesWX.nil hd1 hw1 hnl1)
     | cons it tl' =>
       rw [htlq] at hc hd
-      have hrecA := fun htl => items_reach ctx htol hk hctx hkeys (it :: tl') m after htl md hn br stop child hx hch hsm
+      have hrecA := fun htl => items_reachX ctx htol hk hctx hkeys (it :: tl') m after htl md hn br stop child hx hch hsm
       cases it with
       | W w2 =>
         simp only [coreItems, Bool.and_eq_true, Bool.not_eq_eq_eq_not, Bool.not_true, decide_eq_true_eq, beq_iff_eq] at hc
@@ -737,12 +589,12 @@ theorem items_reach (ctx : Ctx) (htol : env.tol = false) (hk : keysCore keys = t
             have : countNl ('\n' :: (ind ++ w2)) = countNl ('\n' :: ind) + countNl w2 := by
               simp only [countNl, List.count_cons, List.count_append]; omega
             omega
-          obtain ⟨p, hp, hdp, hr⟩ := step_comment (br := br) (stop := stop) (child := child) htol hn hd' hw hnl htext hwsp hnlp hhead2
-          have := ReachesW.step hr rfl (fun st1 hp1 => items_reach ctx htol hk hctx hkeys tl' m after htl md hn br stop child hx hch hsm
+          obtain ⟨p, hp, hdp, hr⟩ := step_commentX (br := br) (stop := stop) (child := child) htol hn hd' hw hnl htext hwsp hnlp hhead2
+          have := ReachesWX.step hr rfl (fun st1 hp1 => items_reachX ctx htol hk hctx hkeys tl' m after htl md hn br stop child hx hch hsm
             st1 [] rfl (by decide) (Or.inl rfl) (by
               have e : st.pos + (p - st.pos) = p := by omega
               rw [hp1, e]; exact hdp))
-          simpa only [treeRaw, List.singleton_append] using this
+          simpa only [exactRaw, C03.commentPost, List.cons_append, List.nil_append, List.singleton_append] using this
       | P w2 =>
         simp only [coreItems, Bool.and_eq_true, Bool.not_eq_eq_eq_not, Bool.not_true, decide_eq_true_eq, beq_iff_eq, and_true] at hc
         obtain ⟨⟨⟨⟨htext, hhead⟩, hws⟩, hnl2⟩, ⟨⟨⟨⟨⟨⟨hm, hws2⟩, hnl3⟩, hh2⟩, hl2⟩, hhead2⟩, hpc⟩, htl⟩ := hc
@@ -766,18 +618,18 @@ theorem items_reach (ctx : Ctx) (htol : env.tol = false) (hk : keysCore keys = t
           have hpar : parStart ('\n' :: (ind ++ (w2 ++ (unparseItems tl' ++ after)))) = true := by
             have := parStart_of (x := '\n' :: (ind ++ w2)) (r := unparseItems tl' ++ after) hxw hxn rfl hhead2
             simpa only [List.cons_append, List.append_assoc] using this
-          obtain ⟨hdp, hr1⟩ := step_comment_par (br := br) (stop := stop) (child := child) htol hn hd hw hnl htext hpar
-          have hr2 := Reaches.trans hr1 (fun st1 hp1 => reach_par (br := br) (stop := stop) (child := child) (st := st1)
+          obtain ⟨hdp, hr1⟩ := step_comment_parX (br := br) (stop := stop) (child := child) htol hn hd hw hnl htext hpar
+          have hr2 := ReachesX.trans hr1 (fun st1 hp1 => reach_parX (br := br) (stop := stop) (child := child) (st := st1)
             (x := '\n' :: (ind ++ w2)) (r := unparseItems tl' ++ after) ctx htol hn hctx hkeys hpc hch
             (by rw [hp1, hdp]; simp only [List.cons_append, List.append_assoc]) hxw hxn rfl hxl hhead2)
-          have := ReachesW.step hr2 (by rw [List.append_assoc]) (fun st1 hp1 => items_reach ctx htol hk hctx hkeys tl' m after htl md hn br stop child hx hch hsm
+          have := ReachesWX.step hr2 (by rw [List.append_assoc]) (fun st1 hp1 => items_reachX ctx htol hk hctx hkeys tl' m after htl md hn br stop child hx hch hsm
             st1 [] rfl (by decide) (Or.inl rfl) (by
               have := drop_add_of_drop (a := '\n' :: (ind ++ w2)) (rest := unparseItems tl' ++ after)
                 (by rw [hdp]; simp only [List.cons_append, List.append_assoc] : env.s.drop (st.pos + (w.length + 1 + text.length)) = _)
               rw [hp1, List.nil_append, ← this]
               congr 1
               omega))
-          simpa only [treeRaw, parShape, Option.getD_some, List.cons_append, List.nil_append, List.singleton_append] using this
+          simpa only [exactRaw, C03.commentPost, parShapeX, Option.getD_some, List.cons_append, List.nil_append, List.singleton_append] using this
       | _ =>
         first
         | (simp [coreItems] at hc; done)
@@ -792,7 +644,7 @@ theorem items_reach (ctx : Ctx) (htol : env.tol = false) (hk : keysCore keys = t
            | cons c0 ind =>
              have hc0 : c0 = '\n' := by simpa using hhead
              subst hc0
-             exact comment_then ctx htol hn (by simp only [treeRaw]) hd hw hnl htext hws hnl2 hhead2 (hrecA htl))
+             exact comment_thenX ctx htol hn (by simp only [exactRaw]) rfl hd hw hnl htext hws hnl2 hhead2 (hrecA htl))
   | .M name post args :: tl, m, after, hc, md, hn, br, stop, child, hx, hch, hsm, st, w, hw, hnl, _, hd => by
     simp only [coreItems, Bool.and_eq_true] at hc
     obtain ⟨⟨hhdr, hargs⟩, htl⟩ := hc
@@ -853,17 +705,17 @@ theorem items_reach (ctx : Ctx) (htol : env.tol = false) (hk : keysCore keys = t
           rw [hd]; rfl
         have hdA : env.s.drop (st.pos + w.length + 1 + (c0 :: name').length + post.length) = unparseArgs args ++ (unparseItems tl ++ after) :=
           drop_add_of_drop (drop_add_of_drop (drop_succ_of_drop (drop_add_of_drop hd')))
-        obtain ⟨al, pA, hAE, hpA, hdpA, hshape⟩ := args_reach ctx htol hk hctx hkeys sig args m (unparseItems tl ++ after) hargs md hn []
+        obtain ⟨al, pA, hAE, hpA, hdpA, hshape⟩ := args_reachX ctx htol hk hctx hkeys sig args m (unparseItems tl ++ after) hargs md hn []
           (st.pos + w.length + 1 + (c0 :: name').length + post.length) hdA
         rw [List.nil_append] at hAE
-        have hr := step_macro (br := br) (stop := stop) (child := child) htol hch hd' hw hnl htok
+        have hr := step_macroX (br := br) (stop := stop) (child := child) htol hch hd' hw hnl htok
           (by rw [hctx]; exact hms) (arguments_runs hAE) (by omega)
         rw [hshape] at hr
-        have := ReachesW.step hr rfl (fun st1 hp1 => items_reach ctx htol hk hctx hkeys tl m after htl md hn br stop child hx hch hsm
+        have := ReachesWX.step hr rfl (fun st1 hp1 => items_reachX ctx htol hk hctx hkeys tl m after htl md hn br stop child hx hch hsm
           st1 [] rfl (by decide) (Or.inl rfl) (by
             have e : st.pos + (pA - st.pos) = pA := by omega
             rw [hp1, e]; exact hdpA))
-        simpa only [treeRaw, List.singleton_append] using this
+        simpa only [exactRaw, List.singleton_append] using this
       | legacyVerb => rw [hms] at hargs; cases hargs
       | legacyVerbEnv _ _ => rw [hms] at hargs; cases hargs
       | unknown => rw [hms] at hargs; cases hargs
@@ -876,7 +728,7 @@ theorem items_reach (ctx : Ctx) (htol : env.tol = false) (hk : keysCore keys = t
     simp only [unparseItems, List.append_assoc] at hd
     have hd1 : env.s.drop (st.pos + w.length + k.opener.length) = [] ++ (unparseItems b ++ (k.closer ++ (unparseItems tl ++ after))) :=
       drop_add_of_drop (drop_add_of_drop hd)
-    have hbody := items_reach ctx htol hk hctx hkeys b true (k.closer ++ (unparseItems tl ++ after)) hb (some k.opener) (normOk_true _)
+    have hbody := items_reachX ctx htol hk hctx hkeys b true (k.closer ++ (unparseItems tl ++ after)) hb (some k.opener) (normOk_true _)
       none (.mathClose k.display k.closer) .same trivial (fun t _ => rfl) (fun h => by cases h)
       { pos := st.pos + w.length + k.opener.length } [] rfl (by decide) (Or.inl rfl) hd1
     have hdollar : k = .dollar → headIs (· == '$') (unparseItems b ++ (k.closer ++ (unparseItems tl ++ after))) = false := by
@@ -884,12 +736,12 @@ theorem items_reach (ctx : Ctx) (htol : env.tol = false) (hk : keysCore keys = t
       rcases hdol with h | h
       · subst hk2; cases h
       · exact core_head_not_dollar ctx _ b hb _ h
-    obtain ⟨p, hp, hdp, hr⟩ := step_math (br := br) (stop := stop) (child := child) htol k hch (hsm rfl) hd hw hnl hdollar hbody
-    have := ReachesW.step hr rfl (fun st1 hp1 => items_reach ctx htol hk hctx hkeys tl false after htl none hn br stop child hx hch hsm
+    obtain ⟨p, hp, hdp, hr⟩ := step_mathX (br := br) (stop := stop) (child := child) htol k hch (hsm rfl) hd rfl hw hnl hdollar hbody
+    have := ReachesWX.step hr rfl (fun st1 hp1 => items_reachX ctx htol hk hctx hkeys tl false after htl none hn br stop child hx hch hsm
       st1 [] rfl (by decide) (Or.inl rfl) (by
         have e : st.pos + (p - st.pos) = p := by omega
         rw [hp1, e]; exact hdp))
-    simpa only [treeRaw, List.singleton_append] using this
+    simpa only [exactRaw, List.singleton_append] using this
   | .P w2 :: tl, m, after, hc, md, hn, br, stop, child, hx, hch, hsm, st, w, hw, hnl, hpre, hd => by
     simp only [coreItems, Bool.and_eq_true, Bool.not_eq_eq_eq_not, Bool.not_true, decide_eq_true_eq, beq_iff_eq] at hc
     obtain ⟨⟨⟨⟨⟨⟨⟨hm, hws⟩, hnl2⟩, hh⟩, hl⟩, hhead⟩, hpc⟩, htl⟩ := hc
@@ -909,10 +761,10 @@ theorem items_reach (ctx : Ctx) (htol : env.tol = false) (hk : keysCore keys = t
           decide
     subst hw0
     simp only [unparseItems, List.append_assoc, List.nil_append] at hd
-    have h1 := reach_par (br := br) (stop := stop) (child := child) ctx htol hn hctx hkeys hpc hch hd hws hnl2 hh hl hhead
-    have := ReachesW.step (w := []) h1 rfl (fun st1 hp => items_reach ctx htol hk hctx hkeys tl m after htl md hn br stop child hx hch hsm
+    have h1 := reach_parX (br := br) (stop := stop) (child := child) ctx htol hn hctx hkeys hpc hch hd hws hnl2 hh hl hhead
+    have := ReachesWX.step (w := []) h1 rfl (fun st1 hp => items_reachX ctx htol hk hctx hkeys tl m after htl md hn br stop child hx hch hsm
       st1 [] rfl (by decide) (Or.inl rfl) (by rw [hp]; exact drop_add_of_drop hd))
-    simpa only [treeRaw, parShape, Option.getD_none, List.nil_append, List.singleton_append] using this
+    simpa only [exactRaw, parShapeX, Option.getD_none, List.nil_append, List.singleton_append] using this
   | .E name args body :: tl, m, after, hc, md, hn, br, stop, child, hx, hch, hsm, st, w, hw, hnl, _, hd => by
     simp only [coreItems, Bool.and_eq_true, Bool.not_eq_eq_eq_not, Bool.not_true] at hc
     obtain ⟨⟨⟨hne, hall⟩, hspec⟩, htl⟩ := hc
@@ -930,20 +782,21 @@ theorem items_reach (ctx : Ctx) (htol : env.tol = false) (hk : keysCore keys = t
         have hdA : env.s.drop (st.pos + w.length + (beginStr name).length) =
             unparseArgs args ++ (unparseItems body ++ (endStr name ++ (unparseItems tl ++ after))) :=
           drop_add_of_drop (drop_add_of_drop hd)
-        obtain ⟨al, pA, hAE, hpA, hdpA, hshape⟩ := args_reach ctx htol hk hctx hkeys sig args m _ hargs md hn []
+        obtain ⟨al, pA, hAE, hpA, hdpA, hshape⟩ := args_reachX ctx htol hk hctx hkeys sig args m _ hargs md hn []
           (st.pos + w.length + (beginStr name).length) hdA
         rw [List.nil_append] at hAE
-        have hbodyR := items_reach ctx htol hk hctx hkeys body (m || bm) (endStr name ++ (unparseItems tl ++ after)) hbody
+        have hbodyR := items_reachX ctx htol hk hctx hkeys body (m || bm) (endStr name ++ (unparseItems tl ++ after)) hbody
           (if bm then none else md) (normOk_envBody hn bm) none (.endEnv name) .same trivial (fun t _ => rfl)
           (fun _ t ht => stop_endEnv_math _ t ht) { pos := pA } [] rfl (by decide) (Or.inl rfl) (by simpa using hdpA)
-        obtain ⟨p, hp, hdp, hr⟩ := step_env (br := br) (stop := stop) (child := child) htol hn hch hd hw hnl hne' hall
+        obtain ⟨p, hp, hdp, hr⟩ := step_envX (br := br) (stop := stop) (child := child)
+          (B := unparseArgs args ++ unparseItems body) htol hn hch hd (by simp only [List.append_assoc]) hw hnl hne' hall
           (by rw [hctx]; exact hes) hAE (by omega) hbodyR
-        rw [hshape] at hr
-        have := ReachesW.step hr rfl (fun st1 hp1 => items_reach ctx htol hk hctx hkeys tl m after htl md hn br stop child hx hch hsm
+        rw [hshape, List.append_assoc] at hr
+        have := ReachesWX.step hr rfl (fun st1 hp1 => items_reachX ctx htol hk hctx hkeys tl m after htl md hn br stop child hx hch hsm
           st1 [] rfl (by decide) (Or.inl rfl) (by
             have e : st.pos + (p - st.pos) = p := by omega
             rw [hp1, e]; exact hdp))
-        simpa only [treeRaw, List.singleton_append] using this
+        simpa only [exactRaw, List.singleton_append] using this
       | legacyVerb => rw [hes] at hspec; cases hspec
       | legacyVerbEnv _ _ => rw [hes] at hspec; cases hspec
       | unknown => rw [hes] at hspec; cases hspec
@@ -972,11 +825,11 @@ theorem items_reach (ctx : Ctx) (htol : env.tol = false) (hk : keysCore keys = t
       have hd' : env.s.drop st.pos = w ++ ((c :: name') ++ (unparseItems tl ++ after)) := by
         rw [hd]; simp only [unparseItems, unparseArgs, List.nil_append, List.append_assoc]
       rw [hkeys] at hts
-      have hr := step_specials (br := br) (stop := stop) (child := child) htol hn hx hch hd' hw hnl hc hts hspec'
-      have := ReachesW.step hr rfl (fun st1 hp => items_reach ctx htol hk hctx hkeys tl m after htl md hn br stop child hx hch hsm
+      have hr := step_specialsX (br := br) (stop := stop) (child := child) htol hn hx hch hd' hw hnl hc hts hspec'
+      have := ReachesWX.step hr rfl (fun st1 hp => items_reachX ctx htol hk hctx hkeys tl m after htl md hn br stop child hx hch hsm
         st1 [] rfl (by decide) (Or.inl rfl) (by
           rw [hp, ← Nat.add_assoc]; exact drop_add_of_drop (drop_add_of_drop hd')))
-      simpa only [treeRaw, treeArgs, List.singleton_append] using this
+      simpa only [exactRaw, exactArgs, List.singleton_append] using this
   | .V d text :: tl, m, after, hc, md, hn, br, stop, child, hx, hch, hsm, st, w, hw, hnl, _, hd => by
     simp only [coreItems, Bool.and_eq_true, Bool.not_eq_eq_eq_not, Bool.not_true] at hc
     obtain ⟨⟨⟨⟨hspec, hda⟩, hds⟩, hnc⟩, htl⟩ := hc
@@ -997,8 +850,8 @@ theorem items_reach (ctx : Ctx) (htol : env.tol = false) (hk : keysCore keys = t
     have hdA : env.s.drop (st.pos + w.length + 1 + ('v' :: "erb".toList).length + ([] : Str).length) = d :: (text ++ d :: (unparseItems tl ++ after)) :=
       drop_add_of_drop (drop_add_of_drop (drop_succ_of_drop hdq))
     have hargs := legacyVerb_runs (env := env) (stdF keys m md true) hdA hds hnc
-    have hr := step_macro (br := br) (stop := stop) (child := child) htol hch hd' hw hnl htok hms hargs (by omega)
-    have := ReachesW.step hr rfl (fun st1 hp1 => items_reach ctx htol hk hctx hkeys tl m after htl md hn br stop child hx hch hsm
+    have hr := step_macroX (br := br) (stop := stop) (child := child) htol hch hd' hw hnl htok hms hargs (by omega)
+    have := ReachesWX.step hr rfl (fun st1 hp1 => items_reachX ctx htol hk hctx hkeys tl m after htl md hn br stop child hx hch hsm
       st1 [] rfl (by decide) (Or.inl rfl) (by
         have h1 := drop_succ_of_drop hdA
         have h2 := drop_succ_of_drop (drop_add_of_drop h1)
@@ -1007,7 +860,7 @@ theorem items_reach (ctx : Ctx) (htol : env.tol = false) (hk : keysCore keys = t
         omega))
     have e : ('v' :: "erb".toList) = "verb".toList := rfl
     rw [e] at this
-    simpa only [treeRaw, List.singleton_append, shapeOfArgList, shapeOfArg, shapeOf] using this
+    simpa only [exactRaw, List.singleton_append, eraseArgList, eraseArg, erase] using this
   | .VE _ _ _ _ :: _, _, _, hc, _, _, _, _, _, _, _, _, _, _, _, _, _, _ => by simp [coreItems] at hc
 termination_by a => sizeOf a
 decreasing_by
@@ -1015,14 +868,14 @@ decreasing_by
     | decreasing_tactic
     | (subst_vars; decreasing_tactic)
 /-- the arguments of a call, slot by slot -/
-theorem args_reach (ctx : Ctx) (htol : env.tol = false) (hk : keysCore keys = true) (hctx : env.ctx = ctx)
+theorem args_reachX (ctx : Ctx) (htol : env.tol = false) (hk : keysCore keys = true) (hctx : env.ctx = ctx)
     (hkeys : ctxKeys ctx = keys) :
     ∀ (sig : List ArgSpec) (args : List ArgVal) (m : Bool) (rest : Str), coreArgs ctx m rest sig args = true →
       ∀ (md : Option Str), NormOk m md → ∀ (acc : List Arg) (pos : Nat), env.s.drop pos = unparseArgs args ++ rest →
       ∃ al pA, ArgsEv env (stdF keys m md true) sig acc pos (.ok (.args none none (acc ++ al)) pA) ∧ pos ≤ pA ∧
-        env.s.drop pA = rest ∧ shapeOfArgList al = treeArgs ctx args
+        env.s.drop pA = rest ∧ eraseArgList env.s al = exactArgs ctx args
   | [], [], m, rest, _, md, _, acc, pos, hd => by
-    refine ⟨[], pos, ?_, Nat.le_refl _, by simpa [unparseArgs] using hd, by simp only [shapeOfArgList, treeArgs]⟩
+    refine ⟨[], pos, ?_, Nat.le_refl _, by simpa [unparseArgs] using hd, by simp only [eraseArgList, exactArgs]⟩
     rw [List.append_nil]
     exact argsEv_nil _ _ _
   | sp :: sig, .absent :: tl, m, rest, hc, md, hn, acc, pos, hd => by
@@ -1031,8 +884,8 @@ theorem args_reach (ctx : Ctx) (htol : env.tol = false) (hk : keysCore keys = tr
     simp only [unparseArgs] at hd
     obtain ⟨md', hK', hn'⟩ := applyDelta_std (keys := keys) m md sp.delta
     have hpk := peek_follow_noerr (psStd_std keys m md true none hn) hd hfol
-    obtain ⟨al, pA, hAE, hpA, hdpA, hshape⟩ := args_reach ctx htol hk hctx hkeys sig tl m rest hrest md hn (acc ++ [Arg.absent]) pos hd
-    refine ⟨.absent :: al, pA, ?_, hpA, hdpA, by simp only [shapeOfArgList, shapeOfArg, treeArgs, hshape]⟩
+    obtain ⟨al, pA, hAE, hpA, hdpA, hshape⟩ := args_reachX ctx htol hk hctx hkeys sig tl m rest hrest md hn (acc ++ [Arg.absent]) pos hd
+    refine ⟨.absent :: al, pA, ?_, hpA, hdpA, by simp only [eraseArgList, eraseArg, exactArgs, hshape]⟩
     have e : acc ++ Arg.absent :: al = acc ++ [Arg.absent] ++ al := by simp
     rw [e]
     cases hkk : sp.kind with
@@ -1058,10 +911,10 @@ theorem args_reach (ctx : Ctx) (htol : env.tol = false) (hk : keysCore keys = tr
       rw [hkk, hK']
       exact xgroup_absent_runs htol (hn' hn) (o := o) (c := c) hkind true hd hfol (by simpa [absentOk, slotOpener] using habs)
     | m => rw [hkk] at hkind; cases hkind
+    | m0 => rw [hkk] at hkind; cases hkind
     | r _ _ => rw [hkk] at hkind; cases hkind
     | v => rw [hkk] at hkind; cases hkind
     | vd _ _ => rw [hkk] at hkind; cases hkind
-    | m0 => rw [hkk] at hkind; cases hkind
   | sp :: sig, .star :: tl, m, rest, hc, md, hn, acc, pos, hd => by
     simp only [coreArgs, Bool.and_eq_true] at hc
     obtain ⟨hkind, hrest⟩ := hc
@@ -1069,11 +922,11 @@ theorem args_reach (ctx : Ctx) (htol : env.tol = false) (hk : keysCore keys = tr
     simp only [unparseArgs, List.cons_append] at hd
     obtain ⟨md', hK', hn'⟩ := applyDelta_std (keys := keys) m md sp.delta
     have hpk := peek_follow_noerr (psStd_std keys m md true none hn) hd (followOk_of_head (by decide) (by decide))
-    obtain ⟨al, pA, hAE, hpA, hdpA, hshape⟩ := args_reach ctx htol hk hctx hkeys sig tl m rest hrest md hn
+    obtain ⟨al, pA, hAE, hpA, hdpA, hshape⟩ := args_reachX ctx htol hk hctx hkeys sig tl m rest hrest md hn
       (acc ++ [Arg.node (Node.chars pos (pos + 1) (psInfo (stdF keys (deltaMath m sp.delta) md' true)) ['*'])]) (pos + 1)
       (drop_succ_of_drop hd)
     refine ⟨Arg.node (Node.chars pos (pos + 1) (psInfo (stdF keys (deltaMath m sp.delta) md' true)) ['*']) :: al, pA, ?_, by omega, hdpA,
-      by simp only [shapeOfArgList, shapeOfArg, shapeOf, treeArgs, hshape]⟩
+      by simp only [eraseArgList, eraseArg, erase, exactArgs, hshape]⟩
     have e : ∀ x : Arg, acc ++ x :: al = acc ++ [x] ++ al := by intro x; simp
     rw [e]
     refine argsEv_cons (res := .node _) htol hpk ?_ hAE
@@ -1088,12 +941,12 @@ theorem args_reach (ctx : Ctx) (htol : env.tol = false) (hk : keysCore keys = tr
     cases hkk : sp.kind with
     | o ap =>
       have hd1 : env.s.drop (pos + 1) = [] ++ (unparseItems b ++ ']' :: (unparseArgs tl ++ rest)) := drop_succ_of_drop hd
-      have hbody := items_reach ctx htol hk hctx hkeys b (deltaMath m sp.delta) (']' :: (unparseArgs tl ++ rest)) hb md' (hn' hn) xbr
+      have hbody := items_reachX ctx htol hk hctx hkeys b (deltaMath m sp.delta) (']' :: (unparseArgs tl ++ rest)) hb md' (hn' hn) xbr
         (.braceClose [']']) (.group ['['] (stdF keys (deltaMath m sp.delta) md' true xbr) (stdF keys (deltaMath m sp.delta) md' true))
         xpOk_br (fun t ht => child_br '[' _ _ t (by decide) ht) (fun _ t ht => stop_brace_math _ t ht) { pos := pos + 1 } [] rfl (by decide) (Or.inl rfl) hd1
-      obtain ⟨p, nd, hqp, hdp, hgrp, hsh⟩ := xgroup_node htol (hn' hn) xpOk_br true ap hd hbody
-      obtain ⟨al, pA, hAE, hpA, hdpA, hshape⟩ := args_reach ctx htol hk hctx hkeys sig tl m rest hrest md hn (acc ++ [Arg.node nd]) p hdp
-      refine ⟨Arg.node nd :: al, pA, ?_, by omega, hdpA, by simp only [shapeOfArgList, shapeOfArg, treeArgs, hshape, hsh]⟩
+      obtain ⟨p, nd, hqp, hdp, hgrp, hsh⟩ := xgroup_nodeX htol (hn' hn) xpOk_br true ap hd hbody
+      obtain ⟨al, pA, hAE, hpA, hdpA, hshape⟩ := args_reachX ctx htol hk hctx hkeys sig tl m rest hrest md hn (acc ++ [Arg.node nd]) p hdp
+      refine ⟨Arg.node nd :: al, pA, ?_, by omega, hdpA, by simp only [eraseArgList, eraseArg, exactArgs, hshape, hsh]⟩
       have e : acc ++ Arg.node nd :: al = acc ++ [Arg.node nd] ++ al := by simp
       rw [e]
       refine argsEv_cons (res := .node nd) htol hpk ?_ hAE
@@ -1101,12 +954,12 @@ theorem args_reach (ctx : Ctx) (htol : env.tol = false) (hk : keysCore keys = tr
       exact hgrp
     | s => rw [hkk] at hkind; cases hkind
     | m => rw [hkk] at hkind; cases hkind
+    | m0 => rw [hkk] at hkind; cases hkind
     | t _ => rw [hkk] at hkind; cases hkind
     | r _ _ => rw [hkk] at hkind; cases hkind
     | d _ _ => rw [hkk] at hkind; cases hkind
     | v => rw [hkk] at hkind; cases hkind
     | vd _ _ => rw [hkk] at hkind; cases hkind
-    | m0 => rw [hkk] at hkind; cases hkind
   | sp :: sig, .grp b :: tl, m, rest, hc, md, hn, acc, pos, hd => by
     simp only [coreArgs, Bool.and_eq_true] at hc
     obtain ⟨⟨hkind, hb⟩, hrest⟩ := hc
@@ -1115,12 +968,12 @@ theorem args_reach (ctx : Ctx) (htol : env.tol = false) (hk : keysCore keys = tr
     obtain ⟨md', hK', hn'⟩ := applyDelta_std (keys := keys) m md sp.delta
     have hpk := peek_follow_noerr (psStd_std keys m md true none hn) hd (followOk_of_head (by decide) (by decide))
     have hd1 : env.s.drop (pos + 1) = [] ++ (unparseItems b ++ '}' :: (unparseArgs tl ++ rest)) := drop_succ_of_drop hd
-    have hbody := items_reach ctx htol hk hctx hkeys b (deltaMath m sp.delta) ('}' :: (unparseArgs tl ++ rest)) hb md' (hn' hn) none
+    have hbody := items_reachX ctx htol hk hctx hkeys b (deltaMath m sp.delta) ('}' :: (unparseArgs tl ++ rest)) hb md' (hn' hn) none
       (.braceClose ['}']) (.group ['{'] (stdF keys (deltaMath m sp.delta) md' true) (stdF keys (deltaMath m sp.delta) md' true))
       trivial (fun t _ => child_group _ _ t) (fun _ t ht => stop_brace_math _ t ht) { pos := pos + 1 } [] rfl (by decide) (Or.inl rfl) hd1
-    obtain ⟨p, nd, hqp, hdp, hgrp, hsh⟩ := group_node htol (hn' hn) hd hbody
-    obtain ⟨al, pA, hAE, hpA, hdpA, hshape⟩ := args_reach ctx htol hk hctx hkeys sig tl m rest hrest md hn (acc ++ [Arg.node nd]) p hdp
-    refine ⟨Arg.node nd :: al, pA, ?_, by omega, hdpA, by simp only [shapeOfArgList, shapeOfArg, treeArgs, hshape, hsh]⟩
+    obtain ⟨p, nd, hqp, hdp, hgrp, hsh⟩ := group_nodeX htol (hn' hn) hd hbody
+    obtain ⟨al, pA, hAE, hpA, hdpA, hshape⟩ := args_reachX ctx htol hk hctx hkeys sig tl m rest hrest md hn (acc ++ [Arg.node nd]) p hdp
+    refine ⟨Arg.node nd :: al, pA, ?_, by omega, hdpA, by simp only [eraseArgList, eraseArg, exactArgs, hshape, hsh]⟩
     have e : acc ++ Arg.node nd :: al = acc ++ [Arg.node nd] ++ al := by simp
     rw [e]
     refine argsEv_cons (res := .node nd) htol hpk ?_ hAE
@@ -1139,11 +992,11 @@ theorem args_reach (ctx : Ctx) (htol : env.tol = false) (hk : keysCore keys = tr
     unfold markerOk at hmk'
     simp only [Bool.and_eq_true, Bool.not_eq_eq_eq_not, Bool.not_true, bne_iff_ne, ne_eq] at hmk'
     have hpk := peek_follow_noerr (psStd_std keys m md true none hn) hd (followOk_of_head hmk'.1.1.1.1.1.1 hmk'.1.1.1.1.1.2)
-    obtain ⟨al, pA, hAE, hpA, hdpA, hshape⟩ := args_reach ctx htol hk hctx hkeys sig tl m rest hrest md hn
+    obtain ⟨al, pA, hAE, hpA, hdpA, hshape⟩ := args_reachX ctx htol hk hctx hkeys sig tl m rest hrest md hn
       (acc ++ [Arg.list (some pos) (some (pos + 1)) [Node.chars pos (pos + 1) (psInfo (stdF keys (deltaMath m sp.delta) md' true)) [c]]]) (pos + 1)
       (drop_succ_of_drop hd)
     refine ⟨Arg.list (some pos) (some (pos + 1)) [Node.chars pos (pos + 1) (psInfo (stdF keys (deltaMath m sp.delta) md' true)) [c]] :: al, pA, ?_, by omega, hdpA,
-      by simp only [shapeOfArgList, shapeOfArg, shapeOfNodes, shapeOf, treeArgs, hshape]⟩
+      by simp only [eraseArgList, eraseArg, eraseNodes, erase, exactArgs, hshape]⟩
     have e : ∀ x : Arg, acc ++ x :: al = acc ++ [x] ++ al := by intro x; simp
     rw [e]
     refine argsEv_cons (res := .list (some pos) (some (pos + 1)) [Node.chars pos (pos + 1) (psInfo (stdF keys (deltaMath m sp.delta) md' true)) [c]]) htol hpk ?_ hAE
@@ -1157,11 +1010,11 @@ theorem args_reach (ctx : Ctx) (htol : env.tol = false) (hk : keysCore keys = tr
     obtain ⟨md', hK', hn'⟩ := applyDelta_std (keys := keys) m md sp.delta
     have hcne := textChar_ne hc1
     have hpk := peek_follow_noerr (psStd_std keys m md true none hn) hd (followOk_of_head hcne.2.2.2.2.2 hcne.2.1)
-    obtain ⟨al, pA, hAE, hpA, hdpA, hshape⟩ := args_reach ctx htol hk hctx hkeys sig tl m rest hrest md hn
+    obtain ⟨al, pA, hAE, hpA, hdpA, hshape⟩ := args_reachX ctx htol hk hctx hkeys sig tl m rest hrest md hn
       (acc ++ [Arg.node (Node.chars pos (pos + 1) (psInfo (stdF keys (deltaMath m sp.delta) md' true)) [c])]) (pos + 1)
       (drop_succ_of_drop hd)
     refine ⟨Arg.node (Node.chars pos (pos + 1) (psInfo (stdF keys (deltaMath m sp.delta) md' true)) [c]) :: al, pA, ?_, by omega, hdpA,
-      by simp only [shapeOfArgList, shapeOfArg, shapeOf, treeArgs, hshape]⟩
+      by simp only [eraseArgList, eraseArg, erase, exactArgs, hshape]⟩
     have e : ∀ x : Arg, acc ++ x :: al = acc ++ [x] ++ al := by intro x; simp
     rw [e]
     refine argsEv_cons (res := .node _) htol hpk ?_ hAE
@@ -1176,7 +1029,7 @@ theorem args_reach (ctx : Ctx) (htol : env.tol = false) (hk : keysCore keys = tr
     obtain ⟨md', hK', hn'⟩ := applyDelta_std (keys := keys) m md sp.delta
     have hpk := peek_follow_noerr (psStd_std keys m md true none hn) hd (followOk_of_head hone.2.2.2.2.2 hone.2.1)
     have hd1 : env.s.drop (pos + 1) = [] ++ (unparseItems b ++ c :: (unparseArgs tl ++ rest)) := drop_succ_of_drop hd
-    have hbody := items_reach ctx htol hk hctx hkeys b (deltaMath m sp.delta) (c :: (unparseArgs tl ++ rest)) hb md' (hn' hn) (some (o, c))
+    have hbody := items_reachX ctx htol hk hctx hkeys b (deltaMath m sp.delta) (c :: (unparseArgs tl ++ rest)) hb md' (hn' hn) (some (o, c))
       (.braceClose [c]) (.group [o] (stdF keys (deltaMath m sp.delta) md' true (some (o, c))) (stdF keys (deltaMath m sp.delta) md' true))
       hx (fun t ht => child_br o _ _ t hone.2.2.2.1 ht) (fun _ t ht => stop_brace_math _ t ht) { pos := pos + 1 } [] rfl (by decide) (Or.inl rfl) hd1
     have hopt : ∃ opt, argParser sp.kind = .group (.pair [o] [c]) opt true := by
@@ -1188,9 +1041,9 @@ theorem args_reach (ctx : Ctx) (htol : env.tol = false) (hk : keysCore keys = tr
         have : sp.kind = .d o c := argKind_d_of_beq _ _ _ h
         rw [this]; rfl
     obtain ⟨opt, hopt⟩ := hopt
-    obtain ⟨p, nd, hqp, hdp, hgrp, hsh⟩ := xgroup_node htol (hn' hn) hx opt true hd hbody
-    obtain ⟨al, pA, hAE, hpA, hdpA, hshape⟩ := args_reach ctx htol hk hctx hkeys sig tl m rest hrest md hn (acc ++ [Arg.node nd]) p hdp
-    refine ⟨Arg.node nd :: al, pA, ?_, by omega, hdpA, by simp only [shapeOfArgList, shapeOfArg, treeArgs, hshape, hsh]⟩
+    obtain ⟨p, nd, hqp, hdp, hgrp, hsh⟩ := xgroup_nodeX htol (hn' hn) hx opt true hd hbody
+    obtain ⟨al, pA, hAE, hpA, hdpA, hshape⟩ := args_reachX ctx htol hk hctx hkeys sig tl m rest hrest md hn (acc ++ [Arg.node nd]) p hdp
+    refine ⟨Arg.node nd :: al, pA, ?_, by omega, hdpA, by simp only [eraseArgList, eraseArg, exactArgs, hshape, hsh]⟩
     have e : acc ++ Arg.node nd :: al = acc ++ [Arg.node nd] ++ al := by simp
     rw [e]
     refine argsEv_cons (res := .node nd) htol hpk ?_ hAE
@@ -1202,265 +1055,119 @@ end
 
 end constructs
 
-/-! ### C02 -/
-
-/-- **C02, full statement** (kept as a proposition; proved below for the fragment `Doc.Core`, covered by the
-    correspondence check and the structure oracle outside it): for every context and every well-formed document of
-    the grammar, the strict parse of its source returns exactly the structure it was written with. -/
-def C02_full : Prop :=
-  ∀ (ctx : Ctx) (d : List Item), WF ctx d = true → shapeTop (parseStrict ctx (unparse d)) = some (treeOf ctx d)
-
-/-- counterexample context: one macro `\a` without arguments -/
-def cexCtx : Ctx := { macros := [(['a'], .std [])] }
-
-/-- counterexample document `\a x`, written as the macro (no post-space), a whitespace item, a text item -/
-def cexDoc : List Item := [.M ['a'] [] [], .W [' '], .T ['x']]
-
-/-- the repaired `Doc.WF` excludes it: a control word without written argument and with an empty `post` must not be
-    followed by a whitespace item (the generator folds that whitespace into `post`) -/
-example : WF cexCtx cexDoc = false := by decide +kernel
-
-/-- written with the blank as the macro's post-space it is well formed -/
-example : WF cexCtx [.M ['a'] [' '] [], .T ['x']] = true := by decide +kernel
-
-theorem startFields_std (ctx : Ctx) : startFields ctx = stdF (ctxKeys ctx) false none true := rfl
-
-theorem delimsOk_start (ctx : Ctx) : DelimsOk (startFields ctx) := by
-  show ∀ pr ∈ ([(['$'], ['$']), (['\\', '('], ['\\', ')'])] : Pairs) ++ [(['$', '$'], ['$', '$']), (['\\', '['], ['\\', ']'])],
-    pr.1 ≠ [] ∧ pr.2 ≠ []
-  decide
+/-! ### the exact round trip -/
 
 /-- the top-level task on a core document, for every sufficiently large amount of fuel, ends at the end of the input
-    with a node list whose structure is the one the document was written with -/
-theorem core_ev (ctx : Ctx) (d : List Item) (h : Core ctx d = true) :
-    ∃ a b ns, Ev { tol := false, ctx := ctx, s := unparse d } (topTask (startFields ctx)) (.ok (.list a b ns) (unparse d).length) ∧
-      shapeOfList ns = treeOf ctx d := by
+    with a node list that is exactly (up to positions and parsing states) the tree the document was written with -/
+theorem core_evX (ctx : Ctx) (d : List Item) (h : Core ctx d = true) :
+    ∃ a b ns, Ev { tol := false, ctx := ctx, s := unparse d } (topTask (Doc.startFields ctx)) (.ok (.list a b ns) (unparse d).length) ∧
+      eraseNodes (unparse d) ns = exactOf ctx d := by
   unfold Core at h
   rw [Bool.and_eq_true] at h
   obtain ⟨hk, hc⟩ := h
-  obtain ⟨tr, n, w', ⟨st', hp, hs, hkk⟩, hdrop, hw', hn', hm⟩ :=
-    items_reach (env := { tol := false, ctx := ctx, s := unparse d }) ctx rfl hk rfl rfl d false [] hc none (fun _ => rfl)
+  obtain ⟨tr, n, w', ⟨st', hp, hs, hcan, hkk⟩, hdrop, hw', hn', hm⟩ :=
+    items_reachX (env := { tol := false, ctx := ctx, s := unparse d }) ctx rfl hk rfl rfl d false [] hc none (fun _ => rfl)
       none .none .same trivial (fun t _ => rfl) (fun _ t _ => rfl) { pos := 0 } [] rfl (by decide) (Or.inl rfl)
       (by simp [unparse])
   have hd' : (unparse d).drop st'.pos = w' := by
     rw [hp]; simpa using hdrop
-  obtain ⟨e, he, hsh, herr, hst, hpos⟩ := loop_eos_ws (child := .same)
+  obtain ⟨e, he, hsh, hce, herr, hst, hpos⟩ := loopX_eos_ws (child := .same)
     (env := { tol := false, ctx := ctx, s := unparse d }) rfl (stdF (ctxKeys ctx) false none true) (st := st') hd' hw' hn'
   have htop := general_of_loop_top (env := { tol := false, ctx := ctx, s := unparse d }) rfl (hkk _ he) herr hst
   have hend : e.pos = (unparse d).length := by
     obtain ⟨N, hN⟩ := htop
-    exact (C01_strict_of_delims ctx (unparse d) (startFields ctx) (delimsOk_start ctx) N _ _ _ _ (hN N (Nat.le_refl _))).2.1
+    exact (C01_strict_of_delims ctx (unparse d) (Doc.startFields ctx) (delimsOk_start ctx) N _ _ _ _ (hN N (Nat.le_refl _))).2.1
   rw [hend] at htop
   refine ⟨_, _, e.nodes, htop, ?_⟩
-  unfold shapeOfList treeOf
-  apply normList_congr
-  rw [hsh]
-  have e1 : mergeChars (sh st') = mergeChars tr := by rw [hs]; rfl
-  rw [mergeChars_append_left e1, hm]
+  have hcan' := hce (hcan (canon_start _ 0))
+  show eraseNodes (unparse d) e.nodes = exactOf ctx d
+  rw [← hcan', hsh]
+  unfold exactOf
+  have e1 : mergeX (shX (unparse d) st') = mergeX tr := by rw [hs]; rfl
+  rw [mergeX_append_left e1, hm]
   rfl
 
-/-- **C02 on the core fragment, every amount of fuel that is large enough.** -/
-theorem C02_core_run (ctx : Ctx) (d : List Item) (h : Core ctx d = true) :
-    ∃ N, ∀ n, N ≤ n →
-      shapeTop (run { tol := false, ctx := ctx, s := unparse d } n (topTask (startFields ctx))) = some (treeOf ctx d) := by
-  obtain ⟨a, b, ns, ⟨N, hN⟩, hsh⟩ := core_ev ctx d h
-  refine ⟨N, fun n hn => ?_⟩
-  rw [hN n hn]
-  show some (shapeOfList ns) = _
-  rw [hsh]
-
-/-- **C02 on the core fragment** (`parseTop`, i.e. the fuel `fuelFor s` the model runs with): for every context in
-    which no specials string starts with a text character and every document made of text (letters, digits,
-    `.` `,` `;` `:`), brace groups and comments ending in a newline (plus indentation), nested to any depth, the strict parse of the document's source returns exactly the structure the document was written
-    with. -/
-theorem C02_core (ctx : Ctx) (d : List Item) (h : Core ctx d = true) :
-    shapeTop (parseStrict ctx (unparse d)) = some (treeOf ctx d) := by
-  obtain ⟨N, hN⟩ := C02_core_run ctx d h
-  show shapeTop (run { tol := false, ctx := ctx, s := unparse d } (fuelFor (unparse d)) (topTask (startFields ctx))) = _
-  by_cases hle : N ≤ fuelFor (unparse d)
-  · exact hN _ hle
-  · have hnf := C06_no_fuel { tol := false, ctx := ctx, s := unparse d } (startFields ctx) (delimsOk_start ctx)
-    have := run_mono { tol := false, ctx := ctx, s := unparse d } (fuelFor (unparse d)) N (topTask (startFields ctx)) hnf (by omega)
-    rw [← this]
-    exact hN N (Nat.le_refl _)
-
-/-- the parse also ends exactly at the end of the source and is a node list (not an error, not a crash) -/
-theorem C02_core_ok (ctx : Ctx) (d : List Item) (h : Core ctx d = true) :
-    ∃ a b ns, parseStrict ctx (unparse d) = .ok (.list a b ns) (unparse d).length ∧ shapeOfList ns = treeOf ctx d := by
-  obtain ⟨a, b, ns, ⟨N, hN⟩, hsh⟩ := core_ev ctx d h
+/-- **C03, step 1 (exact round trip), every amount of fuel that is large enough**: strict parsing of the source of a
+    `Doc.Core` document gives exactly the tree the document was written with — all chars nodes with their characters
+    (whitespace-only ones included), macro post-spaces, comments with their post-spaces, delimiters, argument lists
+    with their absent slots, source slices of formulas and environments; only positions and parsing states are
+    forgotten. -/
+theorem C02x_core_exact (ctx : Ctx) (d : List Item) (h : Core ctx d = true) :
+    ∃ a b ns, parseStrict ctx (unparse d) = .ok (.list a b ns) (unparse d).length ∧
+      eraseNodes (unparse d) ns = exactOf ctx d := by
+  obtain ⟨a, b, ns, ⟨N, hN⟩, hsh⟩ := core_evX ctx d h
   refine ⟨a, b, ns, ?_, hsh⟩
-  show run { tol := false, ctx := ctx, s := unparse d } (fuelFor (unparse d)) (topTask (startFields ctx)) = _
+  show run { tol := false, ctx := ctx, s := unparse d } (fuelFor (unparse d)) (topTask (Doc.startFields ctx)) = _
   by_cases hle : N ≤ fuelFor (unparse d)
   · exact hN _ hle
-  · have hnf := C06_no_fuel { tol := false, ctx := ctx, s := unparse d } (startFields ctx) (delimsOk_start ctx)
-    have := run_mono { tol := false, ctx := ctx, s := unparse d } (fuelFor (unparse d)) N (topTask (startFields ctx)) hnf (by omega)
+  · have hnf := C06_no_fuel { tol := false, ctx := ctx, s := unparse d } (Doc.startFields ctx) (delimsOk_start ctx)
+    have := run_mono { tol := false, ctx := ctx, s := unparse d } (fuelFor (unparse d)) N (topTask (Doc.startFields ctx)) hnf (by omega)
     rw [← this]
     exact hN N (Nat.le_refl _)
 
-/-! ### non-vacuity -/
+/-- **C03, steps 1 + 2 (`C03_exact_roundtrip`)**: the tolerant parse `latex_to_text` runs (`parseTop` with
+    `tol := true` from the walker's start state) of the source of a core document returns a node list — no error, no
+    recovery — whose exact tree is `exactOf ctx d` (`C06_agree_top`: tolerant = strict when strict succeeds). -/
+theorem C03_exact_roundtrip (ctx : Ctx) (d : List Item) (h : Core ctx d = true) :
+    ∃ a b ns, parseTop { tol := true, ctx := ctx, s := unparse d } (L2T.startFields ctx) = .ok (.list a b ns) (unparse d).length ∧
+      eraseNodes (unparse d) ns = exactOf ctx d := by
+  obtain ⟨a, b, ns, hp, hx⟩ := C02x_core_exact ctx d h
+  exact ⟨a, b, ns, C06_agree_top ctx (unparse d) (Doc.startFields ctx) _ _ hp, hx⟩
 
-/-- `ab{c{}{de}}f` -/
-def exDoc : List Item :=
-  [.T ['a', 'b'], .G [.T ['c'], .G [], .G [.T ['d', 'e']]], .T ['f']]
+/-! ### non-vacuity: the exact trees of the example documents of `C02` and `C03` -/
 
-/-- `a{%x}\n  b}` followed by `c`: a comment whose text contains a closing brace, inside a group -/
-def exDoc2 : List Item :=
-  [.T ['a'], .G [.C ['x', '}'] ['\n', ' ', ' '], .T ['b']], .T ['c']]
+mutual
+def showX : XNode → String
+  | .chars c => "(c " ++ showStr c ++ ")"
+  | .comment c p => "(% " ++ showStr c ++ " " ++ showStr p ++ ")"
+  | .group o c b => "(g " ++ showStr o ++ " " ++ showStr c ++ " " ++ showXBody b ++ ")"
+  | .mac n p a => "(m " ++ showStr n ++ " " ++ showStr p ++ " " ++ showXArgs a ++ ")"
+  | .env v n a b => "(e " ++ showStr v ++ " " ++ showStr n ++ " " ++ showXArgs a ++ " " ++ showXBody b ++ ")"
+  | .specials c a => "(s " ++ showStr c ++ " " ++ showXArgs a ++ ")"
+  | .math v d o c b => "(f " ++ showStr v ++ " " ++ (if d then "D" else "I") ++ " " ++ showStr o ++ " " ++ showStr c ++ " " ++ showXBody b ++ ")"
+def showXBody : Option (List XNode) → String
+  | none => "None"
+  | some l => "[" ++ showXList l ++ "]"
+def showXList : List XNode → String
+  | [] => ""
+  | [x] => showX x
+  | x :: l => showX x ++ " " ++ showXList l
+def showXArgs : Option (List XArg) → String
+  | none => "None"
+  | some l => "<" ++ showXArgList l ++ ">"
+def showXArgList : List XArg → String
+  | [] => ""
+  | [a] => showXArg a
+  | a :: l => showXArg a ++ " " ++ showXArgList l
+def showXArg : XArg → String
+  | .absent => "-"
+  | .node s => showX s
+  | .list l => "(L [" ++ showXList l ++ "])"
+end
 
-/-- whitespace between and inside the other items, also behind a comment: `a {b c}` newline `%x` newline, two blanks, `d` -/
-def exDocW : List Item :=
-  [.T ['a'], .W [' '], .G [.T ['b'], .W [' '], .T ['c'], .W [' ']], .W ['\n'], .C ['x'] ['\n'], .W [' ', ' '], .T ['d']]
+/-- the conclusion for the whitespace example of C02 (`a {b c }⏎%x⏎␣␣d`): whitespace-only nodes and the comment's
+    post-space are there -/
+example : ∃ a b ns, parseTop { tol := true, ctx := Gen.defaultCtx, s := unparse exDocW } (L2T.startFields Gen.defaultCtx) =
+      .ok (.list a b ns) (unparse exDocW).length ∧ eraseNodes (unparse exDocW) ns = exactOf Gen.defaultCtx exDocW :=
+  C03_exact_roundtrip _ _ exDocW_core
 
-/-- macro calls: `\section*[s]{T x} \sqrt{y}\item z` — star, bracket and brace arguments, an absent optional argument
-    before a brace group, an absent trailing optional argument, a post-space -/
-def exDocM : List Item :=
-  [.M "section".toList [] [.star, .br [.T ['s']], .grp [.T ['T'], .W [' '], .T ['x']]], .W [' '],
-   .M "sqrt".toList [] [.absent, .grp [.T ['y']]],
-   .M "item".toList [' '] [.absent], .T ['z']]
-
-/-- math: `$x$ \(y\) \[z\] $$w$$ $\mbox{\(a\)}$` — the four delimiter pairs, and math inside an argument that leaves math mode -/
-def exDocF : List Item :=
-  [.F .dollar [.T ['x']], .W [' '], .F .paren [.T ['y']], .W [' '], .F .brack [.T ['z']], .W [' '], .F .ddollar [.T ['w']],
-   .W [' '], .F .dollar [.M "mbox".toList [] [.grp [.F .paren [.T ['a']]]]]]
-
-/-- specials: `a~b --- c` and the ligature inside math and inside an argument: `$x~y$\emph{``q''}` -/
-def exDocS : List Item :=
-  [.T ['a'], .S ['~'] [], .T ['b'], .W [' '], .S ['-', '-', '-'] [], .W [' '], .T ['c'],
-   .F .dollar [.T ['x'], .S ['~'] [], .T ['y']],
-   .M "emph".toList [] [.grp [.S ['`', '`'] [], .T ['q'], .S ['\'', '\''] []]]]
-
-/-- paragraph breaks: at top level, behind a control word (no post-space then), behind a comment line (whose newline the
-    break swallows), inside a group -/
-def exDocP : List Item :=
-  [.T ['a'], .P ['\n', '\n'], .T ['b'], .W [' '], .M "alpha".toList [] [], .P ['\n', ' ', '\n'], .T ['c'], .C ['x'] ['\n', ' '],
-   .P ['\n', '\n', '\n'], .G [.T ['d'], .P ['\n', '\n']]]
-
-/-- a context without the paragraph specials (and with an unknown-macro fallback): a break is plain text there -/
-def exCtxNoPar : Ctx := { unknownMacro := some (.std []) }
-
-/-- single-token arguments: `\frac a{b}\frac12 \sqrt[x]y` -/
-def exDocTok : List Item :=
-  [.M "frac".toList [' '] [.tok 'a', .grp [.T ['b']]], .M "frac".toList [] [.tok '1', .tok '2'], .W [' '],
-   .M "sqrt".toList [] [.br [.T ['x']], .tok 'y']]
-
-/-- environments: an absent optional argument, a math body, arguments, an unknown environment (fallback of the default
-    context), nesting -/
-def exDocE : List Item :=
-  [.E "itemize".toList [.absent] [.M "item".toList [' '] [.absent], .T ['a'], .W ['\n']], .W [' '],
-   .E "equation".toList [] [.T ['x'], .S ['~'] [], .M "mbox".toList [] [.grp [.F .dollar [.T ['y']]]]],
-   .E "array".toList [.br [.T ['t']], .grp [.T ['c']]] [.T ['y'], .S ['&'] [], .T ['z']],
-   .E "foo".toList [] [.E "center".toList [] [.T ['z']]]]
-
-/-- a context with delimited (`r`, `d`) and marker (`t`) arguments — the default context has none -/
-def exCtxD : Ctx :=
-  { macros := [(['r'], .std [⟨.r '(' ')', .none⟩]), (['d'], .std [⟨.d '<' '>', .none⟩, ⟨.m, .none⟩]), (['t'], .std [⟨.t '+', .none⟩]),
-               (['e'], .std [⟨.m, .enterMath⟩])],
-    specials := [(['~'], .std [])] }
-
-/-- `\r(a{b} ~\e{x})\d<x>{y}\d{z}\t+\t q` + paragraph break + `p` -/
-def exDocD : List Item :=
-  [.M ['r'] [] [.del '(' ')' [.T ['a'], .G [.T ['b']], .W [' '], .S ['~'] [], .M ['e'] [] [.grp [.T ['x']]]]],
-   .M ['d'] [] [.del '<' '>' [.T ['x']], .grp [.T ['y']]], .M ['d'] [] [.absent, .grp [.T ['z']]],
-   .M ['t'] [] [.marker '+'], .M ['t'] [' '] [.absent], .T ['q'], .P ['\n', '\n'], .T ['p']]
-
-/-- `\verb`: `a \verb|b{$ %\|x{\verb!!}` -/
-def exDocV : List Item :=
-  [.T ['a'], .W [' '], .V '|' "b{$ %\\".toList, .T ['x'], .G [.V '!' []]]
-
-/-- control symbols: `a\\*[x] b\,c\%` -/
-def exDocSym : List Item :=
-  [.T ['a'], .M ['\\'] [] [.star, .br [.T ['x']]], .W [' '], .T ['b'], .M [','] [] [], .T ['c'], .M ['%'] [] []]
-
-theorem exDocSym_core : Core Gen.defaultCtx exDocSym = true := by decide +kernel
-example : shapeTop (parseStrict Gen.defaultCtx (unparse exDocSym)) = some (treeOf Gen.defaultCtx exDocSym) := C02_core _ _ exDocSym_core
-example : unparse exDocSym = "a\\\\*[x] b\\,c\\%".toList := by decide +kernel
-
-theorem exDocP_core : Core Gen.defaultCtx exDocP = true := by decide +kernel
-theorem exDocP_core' : Core exCtxNoPar exDocP = true := by decide +kernel
-theorem exDocTok_core : Core Gen.defaultCtx exDocTok = true := by decide +kernel
-theorem exDocE_core : Core Gen.defaultCtx exDocE = true := by decide +kernel
-theorem exDocD_core : Core exCtxD exDocD = true := by decide +kernel
-theorem exDocV_core : Core Gen.defaultCtx exDocV = true := by decide +kernel
-
-example : shapeTop (parseStrict Gen.defaultCtx (unparse exDocP)) = some (treeOf Gen.defaultCtx exDocP) := C02_core _ _ exDocP_core
-example : shapeTop (parseStrict exCtxNoPar (unparse exDocP)) = some (treeOf exCtxNoPar exDocP) := C02_core _ _ exDocP_core'
-example : shapeTop (parseStrict Gen.defaultCtx (unparse exDocTok)) = some (treeOf Gen.defaultCtx exDocTok) := C02_core _ _ exDocTok_core
-example : shapeTop (parseStrict Gen.defaultCtx (unparse exDocE)) = some (treeOf Gen.defaultCtx exDocE) := C02_core _ _ exDocE_core
-example : shapeTop (parseStrict exCtxD (unparse exDocD)) = some (treeOf exCtxD exDocD) := C02_core _ _ exDocD_core
-example : shapeTop (parseStrict Gen.defaultCtx (unparse exDocV)) = some (treeOf Gen.defaultCtx exDocV) := C02_core _ _ exDocV_core
-
-example : unparse exDocP = "a\n\nb \\alpha\n \nc%x\n \n\n\n{d\n\n}".toList := by decide +kernel
-example : unparse exDocTok = "\\frac a{b}\\frac12 \\sqrt[x]y".toList := by decide +kernel
-example : unparse exDocE =
-    "\\begin{itemize}\\item a\n\\end{itemize} \\begin{equation}x~\\mbox{$y$}\\end{equation}\\begin{array}[t]{c}y&z\\end{array}\\begin{foo}\\begin{center}z\\end{center}\\end{foo}".toList := by
-  decide +kernel
-example : unparse exDocD = "\\r(a{b} ~\\e{x})\\d<x>{y}\\d{z}\\t+\\t q\n\np".toList := by decide +kernel
-example : unparse exDocV = "a \\verb|b{$ %\\|x{\\verb!!}".toList := by decide +kernel
-
-/-- the expected structures (canonical text of `treeOf`): the paragraph specials under the default context … -/
-example : showShapeList (treeOf Gen.defaultCtx exDocP) =
-    "(c \"a\") (s \"%a;%a;\" <>) (c \"b%20;\") (m \"alpha\" <>) (s \"%a;%a;\" <>) (c \"c\") (% \"x\") (s \"%a;%a;\" <>) (g \"{\" \"}\" [(c \"d\") (s \"%a;%a;\" <>)])" := by
-  decide +kernel
-/-- … and plain text without them (the break behind the comment holds the comment's newline and indentation) -/
-example : showShapeList (treeOf exCtxNoPar exDocP) =
-    "(c \"a%a;%a;b%20;\") (m \"alpha\" <>) (c \"%a;%20;%a;c\") (% \"x\") (g \"{\" \"}\" [(c \"d%a;%a;\")])" := by
-  decide +kernel
-example : showShapeList (treeOf Gen.defaultCtx exDocTok) =
-    "(m \"frac\" <(c \"a\") (g \"{\" \"}\" [(c \"b\")])>) (m \"frac\" <(c \"1\") (c \"2\")>) (m \"sqrt\" <(g \"[\" \"]\" [(c \"x\")]) (c \"y\")>)" := by
-  decide +kernel
-example : showShapeList (treeOf Gen.defaultCtx exDocE) =
-    "(e \"itemize\" <-> [(m \"item\" <->) (c \"a%a;\")]) (e \"equation\" <> [(c \"x\") (s \"~\" <>) (m \"mbox\" <(g \"{\" \"}\" [(f I \"$\" \"$\" [(c \"y\")])])>)]) (e \"array\" <(g \"[\" \"]\" [(c \"t\")]) (g \"{\" \"}\" [(c \"c\")])> [(c \"y\") (s \"&\" <>) (c \"z\")]) (e \"foo\" <> [(e \"center\" <> [(c \"z\")])])" := by
-  decide +kernel
-example : showShapeList (treeOf exCtxD exDocD) =
-    "(m \"r\" <(g \"(\" \")\" [(c \"a\") (g \"{\" \"}\" [(c \"b\")]) (s \"~\" <>) (m \"e\" <(g \"{\" \"}\" [(c \"x\")])>)])>) (m \"d\" <(g \"<\" \">\" [(c \"x\")]) (g \"{\" \"}\" [(c \"y\")])>) (m \"d\" <- (g \"{\" \"}\" [(c \"z\")])>) (m \"t\" <(L [(c \"+\")])>) (m \"t\" <->) (c \"q%a;%a;p\")" := by
-  decide +kernel
-example : showShapeList (treeOf Gen.defaultCtx exDocV) =
-    "(c \"a%20;\") (m \"verb\" <(c \"b{$%20;%25;\\\")>) (c \"x\") (g \"{\" \"}\" [(m \"verb\" <(c \"\")>)])" := by
+example : showXList (exactOf Gen.defaultCtx exDocW) =
+    "(c \"a%20;\") (g \"{\" \"}\" [(c \"b%20;c%20;\")]) (c \"%a;\") (% \"x\" \"%a;%20;%20;\") (c \"d\")" := by
   decide +kernel
 
-theorem exDoc_core : Core Gen.defaultCtx exDoc = true := by decide +kernel
-theorem exDocS_core : Core Gen.defaultCtx exDocS = true := by decide +kernel
-theorem exDoc2_core : Core Gen.defaultCtx exDoc2 = true := by decide +kernel
-theorem exDocW_core : Core Gen.defaultCtx exDocW = true := by decide +kernel
-theorem exDocM_core : Core Gen.defaultCtx exDocM = true := by decide +kernel
-theorem exDocF_core : Core Gen.defaultCtx exDocF = true := by decide +kernel
-
-/-- the default context and the example documents satisfy the hypothesis of `C02_core`, whose conclusion for them is -/
-example : shapeTop (parseStrict Gen.defaultCtx (unparse exDoc)) = some (treeOf Gen.defaultCtx exDoc) :=
-  C02_core _ _ exDoc_core
-example : shapeTop (parseStrict Gen.defaultCtx (unparse exDoc2)) = some (treeOf Gen.defaultCtx exDoc2) :=
-  C02_core _ _ exDoc2_core
-example : shapeTop (parseStrict Gen.defaultCtx (unparse exDocW)) = some (treeOf Gen.defaultCtx exDocW) :=
-  C02_core _ _ exDocW_core
-example : shapeTop (parseStrict Gen.defaultCtx (unparse exDocM)) = some (treeOf Gen.defaultCtx exDocM) :=
-  C02_core _ _ exDocM_core
-example : shapeTop (parseStrict Gen.defaultCtx (unparse exDocF)) = some (treeOf Gen.defaultCtx exDocF) :=
-  C02_core _ _ exDocF_core
-example : shapeTop (parseStrict Gen.defaultCtx (unparse exDocS)) = some (treeOf Gen.defaultCtx exDocS) :=
-  C02_core _ _ exDocS_core
-example : unparse exDocS = "a~b --- c$x~y$\\emph{``q''}".toList := by decide +kernel
-
-/-- the source of the first example -/
-example : unparse exDoc = ['a', 'b', '{', 'c', '{', '}', '{', 'd', 'e', '}', '}', 'f'] := by decide +kernel
-
-/-- the expected structures are not trivial (canonical text of `treeOf`) -/
-example : showShapeList (treeOf Gen.defaultCtx exDoc) =
-    "(c \"ab\") (g \"{\" \"}\" [(c \"c\") (g \"{\" \"}\" []) (g \"{\" \"}\" [(c \"de\")])]) (c \"f\")" := by decide +kernel
-
-example : unparse exDocM = "\\section*[s]{T x} \\sqrt{y}\\item z".toList := by decide +kernel
-
-example : showShapeList (treeOf Gen.defaultCtx exDocM) =
-    "(m \"section\" <(c \"*\") (g \"[\" \"]\" [(c \"s\")]) (g \"{\" \"}\" [(c \"T%20;x\")])>) (m \"sqrt\" <- (g \"{\" \"}\" [(c \"y\")])>) (m \"item\" <->) (c \"z\")" := by
+/-- macro post-space, absent slots, display math with its source slice -/
+example : showXList (exactOf Gen.defaultCtx [.M "item".toList [' '] [.absent], .T ['z'], .W [' '], .F .brack [.W [' '], .T ['u']]]) =
+    "(m \"item\" \"%20;\" <->) (c \"z%20;\") (f \"\\[%20;u\\]\" D \"\\[\" \"\\]\" [(c \"%20;u\")])" := by
   decide +kernel
 
-example : showShapeList (treeOf Gen.defaultCtx exDocF) =
-    "(f I \"$\" \"$\" [(c \"x\")]) (f I \"\\(\" \"\\)\" [(c \"y\")]) (f D \"\\[\" \"\\]\" [(c \"z\")]) (f D \"$$\" \"$$\" [(c \"w\")]) (f I \"$\" \"$\" [(m \"mbox\" <(g \"{\" \"}\" [(f I \"\\(\" \"\\)\" [(c \"a\")])])>)])" := by
-  decide +kernel
+theorem exDocA_core : Core Gen.defaultCtx C03.exDocA = true := by decide +kernel
+theorem exDocB_core : Core Gen.defaultCtx C03.exDocB = true := by decide +kernel
 
-example : unparse exDocF = "$x$ \\(y\\) \\[z\\] $$w$$ $\\mbox{\\(a\\)}$".toList := by decide +kernel
+example : ∃ a b ns, parseTop { tol := true, ctx := Gen.defaultCtx, s := unparse C03.exDocA } (L2T.startFields Gen.defaultCtx) =
+      .ok (.list a b ns) (unparse C03.exDocA).length ∧ eraseNodes (unparse C03.exDocA) ns = exactOf Gen.defaultCtx C03.exDocA :=
+  C03_exact_roundtrip _ _ exDocA_core
 
-/-- adjacent text items are one chars node for the parser and for `treeOf` alike; the empty context is allowed -/
-example : Core {} [.T ['a'], .T ['b'], .G [.T ['x'], .W [' '], .T ['y']]] = true := by decide +kernel
+#print axioms C02x_core_exact
+#print axioms C03_exact_roundtrip
 
-end C02
-end Pylx
+end Pylx.L2T.C03S
